@@ -42,13 +42,21 @@ reading the signature
   get_parameters_from_stubs / add_stub_types / unpack_typed_dict_kwargs / replace_generic_type_vars
   is_param_subclass_instance_default / ParametersVisitor.replace_param_default_subclass_specs
   get_parameter_origins, has_dunder_new_method, is_staticmethod / is_method / is_property / is_method_or_property / is_classmethod / is_lambda
-  ast_* classifiers not inlined elsewhere: ast_get_name_and_attrs, ast_is_super_call, ast_is_attr_assign, ast_is_kwargs_pop_or_get,
-  ast_get_call_kwarg_with_value, ast_is_constant / ast_get_constant_value, ast_variable_load / ast_attribute_load / ast_str
+  ast_is_super_call, ast_is_attr_assign (own units); checked through their real bodies inside the units above (inlined): ast_is_assign_with_value,
+  ast_is_dict_assign(_with_value), ast_get_assign_targets, ast_is_call_with_value, ast_is_kwargs_pop_or_get, ast_is_constant, ast_get_constant_value,
+  ast_is_not, ast_variable_load, ast_attribute_load, ast_get_call_kwarg_with_value, get_arg_kind_index
+not under contract: ast_get_name_and_attrs (names[::-1]: slice step outside the engine's subset; modelled by contract in get_call_class_type), ast_str (getattr(ast, ..)
+  on the real module), log_debug (logging calls are dropped by the engine), UnknownDefault / ConditionalDefault (__repr__ only), pydantic/attrs extractors
+refuted on the unchanged tree (real defects, reproduced natively - see the builder's report):
+  visit_Call            kwargs.pop(<variable>, d) aborts the whole AST resolution with AssertionError (ast_get_constant_value asserts a constant)
+  get_node_component    a function-local import that shadows a module-level name is ignored: the module's object is resolved instead of the one called
+  get_default_nodes     keyword-only parameters are not looked at: a keyword-only class-instance default fails the assert in replace_param_default_subclass_specs
 (each unit's clauses are spelled out in the obligation names)
 """
 import z3
 
-from pyvc.engine import ClassRef, ExcVal, Fn, PyRaise, Rec, SymMap, is_z3
+from pyvc.engine import ClassRef, ExcVal, Fn, PyRaise, Rec, SymMap, is_z3, lift
+from contracts.adapt_arms import suppress_cm
 from pyvc.units import Setup, Unit
 
 MOD = "jsonargparse._parameter_resolvers"
@@ -69,8 +77,13 @@ AST_CONSTS["ast.AST"] = ClassRef("AST")
 AST_CONSTS["ast_assign_type"] = (ClassRef("AnnAssign"), ClassRef("Assign"))
 
 
+def _no_such_field(c, s_, a, k):
+    raise PyRaise(ExcVal("AttributeError", args=(f"'{s_.cls}' object has no attribute {a[0]!r}",), origin=f"{s_.cls}.{a[0]}"))
+
+
 def N(cls, **attrs):
-    return Rec(cls, attrs=attrs)
+    """An ast node: reading a field the node class does not have is AttributeError, as in CPython."""
+    return Rec(cls, attrs=attrs, methods={"__getattr__": _no_such_field})
 
 
 def LOAD():
@@ -359,7 +372,7 @@ def vi_post(ctx, st, result):
         runs_body = truthy if d["test_kind"] == "GLOBAL" else z3.Not(truthy)
         is_if = isinstance(seen, Rec) and seen.cls == "If" and seen is not d["node"]
         ctx.oblige("post", "a-test-on-a-module-level-constant-is-decided-now:only-the-arm-that-will-run-is-searched(the other arm's callee never receives the value)" + tag,
-                   is_if and z3.If(runs_body, seen.attrs["body"] is d["body"], seen.attrs["body"] is d["orelse"]) if is_if else False)
+                   z3.If(runs_body, same_list(seen.attrs["body"], d["body"]), same_list(seen.attrs["body"], d["orelse"])) if is_if else False)
         ctx.oblige("post", "nothing-of-the-arm-that-does-not-run-is-searched:the-node-searched-has-no-else-and-a-constant-test" + tag,
                    is_if and seen.attrs.get("orelse") == [] and isinstance(seen.attrs.get("test"), Rec) and seen.attrs["test"].cls == "Constant")
     else:
@@ -415,11 +428,13 @@ def av_setup(ctx):
     shape = FUNC_SHAPES[ctx.choose(len(FUNC_SHAPES), "node")]
     nm = z3.String("first-name-of-the-callee")
     ctx.assume(z3.Length(nm) > 0)
-    func = {"name(..)": lambda: name(nm), "name.attr(..)": lambda: attribute(name(nm), "attr"), "name.a.b(..)": lambda: attribute(attribute(name(nm), "a"), "b"),
+    at = z3.String("attribute-of-the-callee")
+    ctx.assume(z3.Length(at) > 0)
+    func = {"name(..)": lambda: name(nm), "name.attr(..)": lambda: attribute(name(nm), at), "name.a.b(..)": lambda: attribute(attribute(name(nm), "a"), at),
             "f()(..)": lambda: call(name(nm)), "not-a-call:assignment": lambda: None}[shape]()
     node = call(func, [], [kw(None, name("kwargs"))]) if func is not None else N("Assign", targets=[name(nm, STORE())], value=name("kwargs"))
     imports = SymMap(ctx, "import_names", z3.StringSort(), z3.IntSort())
-    import_names = Rec("dict", methods={"__contains__": lambda c, s_, a, k: imports.has(a[0]), "__getitem__": lambda c, s_, a, k: imports.get(a[0])})
+    import_names = Rec("dict", methods={"__contains__": lambda c, s_, a, k: imports.has(lift(a[0])), "__getitem__": lambda c, s_, a, k: imports.get(lift(a[0]))})
     earlier = ("earlier-key", Rec("earlier node"), None)
     found = [earlier]
     key = z3.String("key")
@@ -458,6 +473,9 @@ def fvu_setup(ctx):
 
     def visit(c, s_, a, k):
         seen.update(node=a[0], state={n: s_.attrs.get(n) for n in ("find_values", "values_found", "dict_assigns", "import_names")})
+        for n in ("values_found", "dict_assigns", "import_names"):
+            if n not in s_.attrs:  # the visit methods read these attributes
+                raise PyRaise(ExcVal("AttributeError", args=(n,), origin="visit: self." + n))
         s_.attrs["values_found"].append(("kwargs", Rec("Call"), None))
         s_.attrs["dict_assigns"]["x"] = 1
         s_.attrs["import_names"]["y"] = 2
@@ -479,6 +497,10 @@ def fvu_post(ctx, st, result):
     ctx.oblige("post", "the-result-is-what-the-visit-found" + tag, result is d["self_"].attrs.get("values_found") and isinstance(result, list) and len(result) == 1 and result[0][0] == "kwargs")
 
 
+def vc_raises(ctx, st, exc):
+    ctx.oblige("raises", f"a-call-that-is-no-use-must-not-abort-the-search-of-the-body(got {exc.cls}@{exc.origin})[{st.data['shape']}]", False)
+
+
 VISITOR_TRUST = "ast.NodeVisitor: visit(node) calls visit_<Class>(node) when defined, else generic_visit(node), which visits the child nodes in field order (source order)"
 
 
@@ -486,7 +508,7 @@ def units_visitor(prop):
     return [
         Unit(prop, PV + "visit_Assign", va_setup, va_post, never, max_paths=4000, trusted=[AST_TRUST, VISITOR_TRUST, "add_value: its own unit"]),
         Unit(prop, PV + "visit_AnnAssign", vaa_setup, vaa_post, never, trusted=["visit_Assign: its own unit"]),
-        Unit(prop, PV + "visit_Call", vc_setup, vc_post, never, max_paths=4000, trusted=[AST_TRUST, VISITOR_TRUST, "add_value: its own unit"]),
+        Unit(prop, PV + "visit_Call", vc_setup, vc_post, vc_raises, max_paths=4000, trusted=[AST_TRUST, VISITOR_TRUST, "add_value: its own unit"]),
         Unit(prop, PV + "visit_If", vi_setup, vi_post, never, trusted=[AST_TRUST, VISITOR_TRUST, "get_component_globals: the globals of the module that defines the component (the namespace the test is evaluated in at run time)"]),
         Unit(prop, PV + "visit_Import", vim_setup, vim_post, never, trusted=["ast.alias: asname is None or a non-empty identifier; name is non-empty"]),
         Unit(prop, PV + "visit_ImportFrom", vim_setup, vif_post, never, trusted=["visit_Import: its own unit"]),
@@ -495,8 +517,1241 @@ def units_visitor(prop):
     ]
 
 
+
+
+# ============================================================================================================ which callee receives the value
+# ------------------------------------------------------------------------------------------------ get_node_component
+NC_FORMS = ["f(..)[module global]", "f(..)[local import only]", "f(..)[module global shadowed by a local import]", "f(..)[unknown,no import]", "f(..)[local import fails]",
+            "SELF(..)", "SELF.m(..)", "K.m(..)[class in module]", "K.m(..)[class imported locally]", "K.m(..)[module class shadowed by a local import]", "obj.f(..)[module object with f]",
+            "obj.f(..)[module object without f]", "unknown.f(..)", "a.b.f(..)", "f()(..)"]
+
+
+def gnc_setup(ctx):
+    ast_classes(ctx)
+    context = ["function", "method", "classmethod"][ctx.choose(3, "component-is-a")]
+    form = NC_FORMS[ctx.choose(len(NC_FORMS), "callee")]
+    parent = Rec("class Parent") if context != "function" else None
+    self_name = {"function": None, "method": "self", "classmethod": "cls"}[context]
+    sname = self_name or "self"
+    F, Fimp, K, Kimp, OBJF = Rec("function f of the module"), Rec("function f imported locally"), Rec("class K of the module"), Rec("class K imported locally"), Rec("obj.f")
+    OBJ = Rec("module-level object")
+    mod_attrs = {}
+    if "module global" in form:
+        mod_attrs["f"] = F
+    if "class in module" in form or "module class" in form:
+        mod_attrs["K"] = K
+    if form.startswith("obj.f"):
+        mod_attrs["obj"] = OBJ
+        if "with f" in form:
+            OBJ.attrs["f"] = OBJF
+    module = Rec("module", attrs=mod_attrs)
+    has_source = "local import" in form or "imported locally" in form
+    source = N("ImportFrom", module="elsewhere", names=[N("alias", name="x", asname=None)]) if has_source else None
+    builders = [("f(..)", lambda: name("f")), ("SELF(..)", lambda: name(sname)), ("SELF.m", lambda: attribute(name(sname), "m")), ("K.m", lambda: attribute(name("K"), "m")), ("obj.f", lambda: attribute(name("obj"), "f")),
+                ("unknown.f", lambda: attribute(name("unknown"), "f")), ("a.b.f", lambda: attribute(attribute(name("a"), "b"), "f")), ("f()(..)", lambda: call(name("f")))]
+    func = next(b for pfx, b in builders if form.startswith(pfx))()
+    node = call(func, [], [kw(None, name("kwargs"))])
+    component = Rec("component")
+
+    def from_source(c, s_, a, k):
+        c.event("from-source", a[0], a[1])
+        if "fails" in form:
+            return None
+        return {"f": Fimp, "K": Kimp}.get(a[0])
+
+    self = visitor(component=component, parent=parent, self_name=self_name)
+    self.methods["get_component_from_source"] = from_source
+    calls = dict(ast_calls())
+    calls.update({"inspect.getmodule": lambda c, a, k: (c.event("getmodule", a[0]), module)[1], "is_classmethod": lambda c, a, k: (c.event("is_classmethod", a[0], a[1]), context == "classmethod")[1],
+                  "inspect.isclass": lambda c, a, k: isinstance(a[0], Rec) and a[0].cls.startswith("class "), "ast_str": lambda c, a, k: "text"})
+    return Setup(env={"self": self, "node": node, "source": source}, calls=calls, consts=HELPER_CONSTS, inline=inl("ast_variable_load"),
+                 data=dict(context=context, form=form, parent=parent, F=F, Fimp=Fimp, K=K, Kimp=Kimp, OBJF=OBJF, component=component, source=source, node=node, snapshot=dump(node)))
+
+
+def gnc_post(ctx, st, result):
+    d = st.data
+    form, context = d["form"], d["context"]
+    tag = f"[{form};in a {context}]"
+    want = None
+    words = "a-callee-that-cannot-be-determined-statically(unknown name,failed import,instance call,chained attribute,call result)-is-not-followed:None"
+    if form == "f(..)[module global]":
+        want, words = (d["F"], None), "f(..)-calls-the-module's-f"
+    elif form in ("f(..)[local import only]", "f(..)[module global shadowed by a local import]"):
+        want, words = (d["Fimp"], None), "f(..)-after-a-local-`from x import f`-calls-the-imported-f(a local import shadows the module's name)"
+    elif form == "SELF(..)" and context == "classmethod":
+        want, words = (d["parent"], None), "cls(..)-in-a-classmethod-instantiates-the-class"
+    elif form == "SELF.m(..)" and context != "function":
+        want, words = (d["parent"], "m"), "self.m(..)/cls.m(..)-calls-method-m-of-the-class"
+    elif form == "K.m(..)[class in module]":
+        want, words = (d["K"], "m"), "K.m(..)-with-a-class-K-of-the-module-calls-K's-m"
+    elif form in ("K.m(..)[class imported locally]", "K.m(..)[module class shadowed by a local import]"):
+        want, words = (d["Kimp"], "m"), "K.m(..)-after-a-local-import-of-K-calls-the-imported-K's-m"
+    elif form == "obj.f(..)[module object with f]":
+        want, words = (d["OBJF"], None), "obj.f(..)-with-a-module-level-object(or module)-calls-its-attribute-f"
+    if want is None:
+        ctx.oblige("post", words + tag, result is None)
+        ctx.oblige("post", "an-unresolved-callee-is-logged-once" + tag, len([e for e in ctx.events if e[0] == "log"]) == 1)
+    else:
+        ctx.oblige("post", words + tag, isinstance(result, tuple) and len(result) == 2 and result[0] is want[0] and result[1] == want[1])
+    gm = [e for e in ctx.events if e[0] == "getmodule"]
+    ctx.oblige("post", "names-are-looked-up-in-the-module-that-defines-the-component" + tag, all(e[1] is d["component"] for e in gm) and len(gm) == 1)
+    fs = [e for e in ctx.events if e[0] == "from-source"]
+    ctx.oblige("post", "a-local-import-is-consulted-only-with-the-statement-that-binds-the-first-name-of-the-callee" + tag, all(e[2] is d["source"] and e[1] == form[0] for e in fs) and (not fs or d["source"] is not None))
+    ctx.oblige("frame", "the-tree-is-not-modified" + tag, dump(d["node"]) == d["snapshot"])
+
+
+# ------------------------------------------------------------------------------------------------ get_component_from_source
+def gcfs_setup(ctx):
+    ast_classes(ctx)
+    fate = ["binds-the-name", "binds-another-name-only", "ImportError", "ModuleNotFoundError", "AttributeError", "SyntaxError", "RuntimeError"][ctx.choose(7, "executing-the-import")]
+    has_logger = ctx.choose(2, "logger") == 1
+    source = N("ImportFrom", module="elsewhere", names=[N("alias", name="foo", asname=None)])
+    obj, other = Rec("the imported object"), Rec("another object")
+    tree = Rec("Module", attrs={"body": [], "type_ignores": []})
+
+    def do_exec(c, a, k):
+        code, g, l = a[0], a[1], a[2] if len(a) > 2 else a[1]
+        c.event("exec", code, g, l)
+        if fate == "binds-the-name":
+            l.update({"foo": obj, "bar": other})
+        elif fate == "binds-another-name-only":
+            l["bar"] = other
+        else:
+            raise PyRaise(ExcVal(fate, args=("cannot import",), origin="exec"))
+
+    calls = {"ast.parse": lambda c, a, k: (c.event("parse", a[0]), tree)[1], "compile": lambda c, a, k: ("code", a[0], list(a[0].attrs["body"]), k.get("mode")), "exec": do_exec, "ast_str": lambda c, a, k: "text"}
+    self = visitor(logger=Rec("logger") if has_logger else None)
+    return Setup(env={"self": self, "name": "foo", "source": source}, calls=calls, consts=HELPER_CONSTS, data=dict(fate=fate, source=source, obj=obj, tree=tree, has_logger=has_logger))
+
+
+def gcfs_post(ctx, st, result):
+    d = st.data
+    tag = f"[{d['fate']};{'logger' if d['has_logger'] else 'no logger'}]"
+    ex = [e for e in ctx.events if e[0] == "exec"]
+    ok = len(ex) == 1 and ex[0][1][0] == "code" and ex[0][1][1] is d["tree"] and len(ex[0][1][2]) == 1 and ex[0][1][2][0] is d["source"] and ex[0][1][3] == "exec"
+    ctx.oblige("post", "exactly-the-import-statement-given-is-executed(a module whose only statement it is),once" + tag, ok)
+    ctx.oblige("post", "it-runs-in-a-fresh-namespace-of-its-own(nothing of the library or the user's module is visible or overwritten)" + tag,
+               len(ex) == 1 and isinstance(ex[0][2], dict) and ex[0][2] is ex[0][3] and set(ex[0][2]) <= {"foo", "bar"})
+    if d["fate"] == "binds-the-name":
+        ctx.oblige("post", "the-object-the-import-binds-under-the-name-is-returned" + tag, result is d["obj"])
+    else:
+        ctx.oblige("post", "an-import-that-fails(for whatever reason)-or-does-not-bind-the-name-gives-None" + tag, result is None)
+
+
+def gcfs_raises(ctx, st, exc):
+    ctx.oblige("raises", f"a-failing-local-import-never-escapes(got {exc.cls}@{exc.origin})[{st.data['fate']}]", False)
+
+
+# ------------------------------------------------------------------------------------------------ match_call_that_uses_attr
+MC_FORMS = ["f(**self.stored)", "f(1, k=2, **self.stored)", "f(k=self.stored)", "f(self.stored)", "f(**self.other)", "f(**stored)", "not-a-call:assignment"]
+
+
+def mc_setup(ctx):
+    ast_classes(ctx)
+    form = MC_FORMS[ctx.choose(len(MC_FORMS), "node")]
+    known = ctx.choose(2, "callee-known") == 1
+    sig_ok = ctx.choose(2, "its-signature-resolves") == 1 if known else True
+    sv = lambda a="stored": attribute(name("self"), a)  # noqa: E731
+    node = {"f(**self.stored)": lambda: call(name("f"), [], [kw(None, sv())]), "f(1, k=2, **self.stored)": lambda: call(name("f"), [const(1)], [kw("k", const(2)), kw(None, sv())]),
+            "f(k=self.stored)": lambda: call(name("f"), [], [kw("k", sv())]), "f(self.stored)": lambda: call(name("f"), [sv()], []), "f(**self.other)": lambda: call(name("f"), [], [kw(None, sv("other"))]),
+            "f(**stored)": lambda: call(name("f"), [], [kw(None, name("stored"))]), "not-a-call:assignment": lambda: N("Assign", targets=[name("t", STORE())], value=sv())}[form]()
+    comp_args = (Rec("class Callee"), "method")
+    sig_params = [Rec("ParamData", attrs={"name": "p0"}), Rec("ParamData", attrs={"name": "k"})]
+    remaining = [sig_params[0]]
+    logger, source = Rec("logger"), Rec("source")
+    self = visitor(self_name="self", logger=logger)
+    self.methods["get_node_component"] = lambda c, s_, a, k: (c.event("node-component", a[0], a[1]), comp_args if known else None)[1]
+
+    def gsp(c, a, k):
+        c.event("signature", tuple(a), dict(k))
+        if not sig_ok:
+            raise PyRaise(ExcVal("ValueError", args=("no source",), origin="get_signature_parameters"))
+        return sig_params
+
+    def rgp(c, a, k):
+        c.event("remove-given", a[0], a[1], len(a))
+        return remaining if a[1] is sig_params else list(a[1])
+
+    calls = dict(ast_calls())
+    calls.update({"get_signature_parameters": gsp, "remove_given_parameters": rgp, "ast_str": lambda c, a, k: "text"})
+    return Setup(env={"self": self, "node": node, "source": source, "attr_name": "stored"}, calls=calls, consts=HELPER_CONSTS, inline=inl("ast_attribute_load", "ast_variable_load", "ast_get_call_kwarg_with_value"),
+                 data=dict(form=form, known=known, sig_ok=sig_ok, node=node, comp_args=comp_args, sig_params=sig_params, remaining=remaining, logger=logger, source=source, snapshot=dump(node)))
+
+
+def mc_post(ctx, st, result):
+    d = st.data
+    form = d["form"]
+    tag = f"[{form};callee {'known' if d['known'] else 'unknown'};signature {'ok' if d['sig_ok'] else 'fails'}]"
+    sig = [e for e in ctx.events if e[0] == "signature"]
+    nc = [e for e in ctx.events if e[0] == "node-component"]
+    if form == "not-a-call:assignment":
+        ctx.oblige("post", "a-use-of-the-attribute-that-is-no-call-is-no-match(None):nothing-is-resolved" + tag, result is None and not sig and not nc)
+        return
+    forwards = form in ("f(**self.stored)", "f(1, k=2, **self.stored)")
+    if forwards and d["known"] and d["sig_ok"]:
+        rg = [e for e in ctx.events if e[0] == "remove-given"]
+        ctx.oblige("post", "a-call-that-unpacks-**self.attr-contributes-the-parameters-of-the-callee-of-that-very-call(get_node_component of the node and its import),resolved-with-the-visitor's-logger" + tag,
+                   len(nc) == 1 and nc[0][1] is d["node"] and nc[0][2] is d["source"] and len(sig) == 1 and len(sig[0][1]) == 2 and sig[0][1][0] is d["comp_args"][0] and sig[0][1][1] == "method" and sig[0][2].get("logger") is d["logger"] and set(sig[0][2]) == {"logger"})
+        ctx.oblige("post", "minus-what-the-call-hard-codes(remove_given_parameters of this node over the callee's parameters)" + tag, result is d["remaining"] and len(rg) == 1 and rg[0][1] is d["node"] and rg[0][2] is d["sig_params"])
+    else:
+        ctx.oblige("post", "every-other-call(attribute given as a keyword value or positionally,another attribute,a local of that name,unknown callee,unresolvable signature)-contributes-nothing:an-empty-list" + tag, result == [] and isinstance(result, list))
+        ctx.oblige("post", "a-callee-is-resolved-only-for-a-call-that-unpacks-**self.attr" + tag, (not nc and not sig) if not forwards else (len(nc) == 1 and len(sig) == (1 if d["known"] else 0)))
+    ctx.oblige("frame", "the-tree-is-not-modified" + tag, dump(d["node"]) == d["snapshot"])
+
+
+def mc_raises(ctx, st, exc):
+    ctx.oblige("raises", f"a-callee-whose-signature-cannot-be-resolved-contributes-nothing,it-does-not-abort(got {exc.cls}@{exc.origin})", False)
+
+
+# ------------------------------------------------------------------------------------------------ get_parameters_attr_use_in_members
+MEMBER_KINDS = ["method", "property", "staticmethod", "classmethod", "cython-method", "class-attribute"]
+
+
+def member_obj(kind):
+    cls = {"method": "function", "property": "property", "staticmethod": "staticmethod", "classmethod": "classmethod", "cython-method": "cython_function_or_method", "class-attribute": "int"}[kind]
+    return Rec(cls, attrs={"__class__": Rec("type", attrs={"__name__": cls})})
+
+
+def aum_setup(ctx):
+    ast_classes(ctx)
+    n = ctx.choose(3, "n-members")
+    names = [z3.String(f"member{i}") for i in range(n)]
+    kinds = [MEMBER_KINDS[ctx.choose(len(MEMBER_KINDS), f"member{i}-is-a")] for i in range(n)]
+    uses = [ctx.choose(2, f"member{i}-forwards-self.attr") == 1 if kinds[i] in ("method", "property", "cython-method") else False for i in range(n)]
+    objs = [member_obj(k) for k in kinds]
+    results = [[Rec("ParamData", attrs={"name": f"from-member{i}"})] for i in range(n)]
+    parent, logger = Rec("class Parent"), Rec("logger")
+    created = []
+
+    def idx_of(term):
+        return next(i for i, t in enumerate(names) if t is term or (is_z3(term) and t.eq(term)))
+
+    def new_visitor(c, a, k):
+        i = idx_of(a[1])
+        created.append((i, a[0], dict(k)))
+        return Rec("ParametersVisitor", methods={"get_parameters_call_attr": lambda c2, s_, a2, k2: (c2.event("call-attr", i, a2[0], a2[1]), results[i] if uses[i] else None)[1]})
+
+    calls = dict(ast_calls())
+    calls.update({"inspect.getmembers": lambda c, a, k: (c.event("getmembers", a[0]), [(names[i], Rec("bound member")) for i in range(n)])[1],
+                  "inspect.getattr_static": lambda c, a, k: (c.event("getattr_static", a[0]), objs[idx_of(a[1])])[1],
+                  "inspect.isfunction": lambda c, a, k: isinstance(a[0], Rec) and a[0].cls == "function", "ParametersVisitor": new_visitor})
+    self = visitor(self_name="self", parent=parent, logger=logger, component=Rec("component (__init__)"))
+    return Setup(env={"self": self, "attr_name": "stored"}, calls=calls, consts=HELPER_CONSTS, inline=inl("ast_attribute_load", "is_method_or_property", "is_method", "is_property", "is_staticmethod"),
+                 data=dict(n=n, names=names, kinds=kinds, uses=uses, results=results, parent=parent, logger=logger, created=created), watch={f"member{i}": names[i] for i in range(n)})
+
+
+def aum_post(ctx, st, result):
+    d = st.data
+    n = d["n"]
+    tag = f"[{[(k, 'forwards' if u else '-') for k, u in zip(d['kinds'], d['uses'])]}]"
+    public = [z3.Not(z3.PrefixOf(z3.StringVal("__"), nm)) for nm in d["names"]]
+    searchable = [k in ("method", "property", "cython-method") for k in d["kinds"]]
+    wins = [z3.And(public[i]) if (searchable[i] and d["uses"][i]) else z3.BoolVal(False) for i in range(n)]
+    winner = z3.IntVal(-1)
+    for i in reversed(range(n)):
+        winner = z3.If(wins[i], z3.IntVal(i), winner)
+    got = next((i for i in range(n) if result is d["results"][i]), -1)
+    ctx.oblige("post", "the-parameters-are-those-found-in-the-first-public(no leading __)-method-or-property-of-the-class,in-member-order,whose-body-forwards-self.attr;none=>empty-list" + tag,
+               z3.And(winner == got, z3.BoolVal(got >= 0 or (isinstance(result, list) and result == []))))
+    created_idx = [c[0] for c in d["created"]]
+    ctx.oblige("post", "members-are-searched-in-order,each-at-most-once,stopping-at-the-first-that-forwards-the-attribute;private(__x)-members,static/class-methods-and-plain-attributes-are-not-searched" + tag,
+               z3.And(z3.BoolVal(created_idx == sorted(set(created_idx))), *[z3.BoolVal(i in created_idx) == z3.And(z3.BoolVal(searchable[i]), public[i], z3.Or(winner == -1, winner >= i)) for i in range(n)]))
+    ctx.oblige("post", "each-is-searched-by-a-visitor-of(the same class,that member,the same logger)" + tag, all(c[1] is d["parent"] and c[2].get("logger") is d["logger"] and set(c[2]) == {"logger"} for c in d["created"]))
+    ca = [e for e in ctx.events if e[0] == "call-attr"]
+    ctx.oblige("post", "asked-for-the-uses-of-exactly-self.<attr>(the attribute loaded from the method's own self)" + tag,
+               [e[1] for e in ca] == created_idx and all(e[2] == "stored" and dump(e[3]) == dump(attribute(name("self"), "stored")) for e in ca))
+    ctx.oblige("post", "the-members-are-those-of-the-class-being-resolved" + tag, all(e[1] is d["parent"] for e in ctx.events if e[0] in ("getmembers", "getattr_static")))
+    ctx.oblige("post", "when-no-member-uses-the-attribute-this-is-logged" + tag, z3.BoolVal(len([e for e in ctx.events if e[0] == "log"]) == (1 if got < 0 else 0)))
+
+
+# ------------------------------------------------------------------------------------------------ parse_source_tree
+PST = ["already-parsed", "function", "method", "method-without-arguments", "source-not-available(OSError)", "builtin(TypeError)", "syntax-error-after-dedent", "two-statements", "lambda-expression-statement"]
+
+
+def pst_setup(ctx):
+    ast_classes(ctx)
+    case = PST[ctx.choose(len(PST), "case")]
+    has_parent = case in ("method", "method-without-arguments") or (case not in ("function",) and ctx.choose(2, "inside-a-class") == 1)
+    fdef = N("FunctionDef", name="f", args=N("arguments", args=[N("arg", arg="this")] if case != "method-without-arguments" else [], vararg=None, kwarg=None))
+    body = {"two-statements": [fdef, N("Expr", value=const(1))], "lambda-expression-statement": [Rec("Expr", attrs={"value": N("Lambda")}, methods={"__getattr__": lambda c, s_, a, k: (_ for _ in ()).throw(PyRaise(ExcVal("AttributeError", args=(a[0],), origin="Expr." + a[0])))})]}.get(case, [fdef])
+    tree = Rec("Module", attrs={"body": body})
+    component = Rec("component")
+    old_node = Rec("FunctionDef", attrs={"tag": "parsed earlier"})
+    self = visitor(component=component, parent=Rec("class Parent") if has_parent else None)
+    if case == "already-parsed":
+        self.attrs.update(component_node=old_node, self_name="earlier-self")
+
+    def getsource(c, a, k):
+        c.event("getsource", a[0])
+        if case.startswith("source-not-available"):
+            raise PyRaise(ExcVal("OSError", args=("could not get source code",), origin="inspect.getsource"))
+        if case.startswith("builtin"):
+            raise PyRaise(ExcVal("TypeError", args=("is a built-in",), origin="inspect.getsource"))
+        return "    indented source"
+
+    def parse(c, a, k):
+        c.event("parse", a[0])
+        if case == "syntax-error-after-dedent":
+            raise PyRaise(ExcVal("SyntaxError", origin="ast.parse"))
+        return tree
+
+    calls = {"inspect.getsource": getsource, "textwrap.dedent": lambda c, a, k: ("dedented", a[0]), "ast.parse": parse}
+    return Setup(env={"self": self}, calls=calls, consts=HELPER_CONSTS, data=dict(case=case, has_parent=has_parent, fdef=fdef, self_=self, component=component, old_node=old_node))
+
+
+def pst_post(ctx, st, result):
+    d = st.data
+    a = d["self_"].attrs
+    tag = f"[{d['case']};{'in a class' if d['has_parent'] else 'no class'}]"
+    if d["case"] == "already-parsed":
+        ctx.oblige("post", "a-component-is-parsed-once:a-second-call-reads-nothing-and-keeps-node-and-self-name" + tag, a.get("component_node") is d["old_node"] and a.get("self_name") == "earlier-self" and not ctx.events)
+        return
+    ok_case = d["case"] in ("function", "method") or (d["case"] == "lambda-expression-statement")
+    ctx.oblige("post", "only-a-source-that-parses-to-exactly-one-statement-is-accepted" + tag, ok_case)
+    ctx.oblige("post", "the-node-is-the-only-statement-of-the-dedented-source-of-the-component" + tag,
+               a.get("component_node") is (d["fdef"] if d["case"] != "lambda-expression-statement" else a.get("component_node")) and [e for e in ctx.events if e[0] == "getsource"][0][1] is d["component"]
+               and [e for e in ctx.events if e[0] == "parse"][0][1] == ("dedented", "    indented source"))
+    ctx.oblige("post", "self_name-is-the-first-argument-of-a-member(self / cls as the author spelled it),None-for-a-plain-function" + tag, a.get("self_name") == ("this" if d["has_parent"] else None) and "self_name" in a)
+
+
+def pst_raises(ctx, st, exc):
+    d = st.data
+    tag = f"[{d['case']};{'in a class' if d['has_parent'] else 'no class'}]"
+    ctx.oblige("raises", f"every-failure-to-obtain-the-node-is-SourceNotAvailable(got {exc.cls}@{exc.origin})" + tag, exc.cls == "SourceNotAvailable")
+    expected = d["case"] in ("source-not-available(OSError)", "builtin(TypeError)", "syntax-error-after-dedent", "two-statements", "method-without-arguments") or (d["case"] == "lambda-expression-statement" and d["has_parent"])
+    ctx.oblige("raises", "it-is-raised-only-when-the-source-is-missing,does-not-parse,is-not-one-statement-or-a-member-has-no-self-argument" + tag, expected)
+    ctx.oblige("raises", "a-failed-parse-leaves-no-self_name-without-node-pretending-success" + tag, not ("self_name" in d["self_"].attrs and "component_node" not in d["self_"].attrs))
+
+
+# ------------------------------------------------------------------------------------------------ small visitor methods
+def gno_setup(ctx):
+    line = z3.Int("lineno")
+    ctx.assume(line >= 1)
+    origin = z3.String("origin-of-component")
+    comp, parent = Rec("component"), Rec("parent")
+    self = visitor(component=comp, parent=parent)
+    calls = {"get_parameter_origins": lambda c, a, k: (c.event("origins", a[0], a[1]), origin)[1]}
+    return Setup(env={"self": self, "node": N("Call", lineno=line)}, calls=calls, data=dict(line=line, origin=origin, comp=comp, parent=parent))
+
+
+def gno_post(ctx, st, result):
+    d = st.data
+    ev = [e for e in ctx.events if e[0] == "origins"]
+    ctx.oblige("post", "the-origin-of-a-node-is-<origin of (component, parent)>:<line of the node>", z3.And(result == z3.Concat(d["origin"], z3.StringVal(":"), z3.IntToStr(d["line"]))) if is_z3(result) else False)
+    ctx.oblige("post", "the-origin-is-that-of-this-visitor's-component-and-parent(in that order)", len(ev) == 1 and ev[0][1] is d["comp"] and ev[0][2] is d["parent"])
+
+
+def ignore_table():
+    """The real ignore_params table, read from the source under verification."""
+    import ast as _ast
+    from pyvc.units import load_module
+    _, tree, _ = load_module(MOD)
+    for node in tree.body:
+        if isinstance(node, _ast.Assign) and any(isinstance(t, _ast.Name) and t.id == "ignore_params" for t in node.targets):
+            return _ast.literal_eval(node.value)
+    return {}
+
+
+def rip_setup(ctx):
+    table = ignore_table()
+    path = z3.String("import-path-of-component")
+    n = ctx.choose(4, "n-params")
+    names = [z3.String(f"name{i}") for i in range(n)]
+    params = [Rec("ParamData", attrs={"name": nm}) for nm in names]
+
+    def getitem(c, s_, a, k):
+        for key in table:
+            if c.branch(a[0] == z3.StringVal(key), f"path-is-{key}"):
+                return set(table[key])
+        raise PyRaise(ExcVal("KeyError", origin="ignore_params[]"))
+
+    ign = Rec("dict ignore_params", methods={"__contains__": lambda c, s_, a, k: z3.Or(*[a[0] == z3.StringVal(key) for key in table]) if table else False, "__getitem__": getitem})
+    comp = Rec("component")
+    self = visitor(component=comp)
+    calls = {"get_import_path": lambda c, a, k: (c.event("import-path", a[0]), path)[1]}
+    return Setup(env={"self": self, "params": list(params)}, calls=calls, consts={"ignore_params": ign}, data=dict(table=table, path=path, names=names, params=params, comp=comp), watch={"path": path})
+
+
+def rip_post(ctx, st, result):
+    d = st.data
+    ok = isinstance(result, list) and all(any(r is p for p in d["params"]) for r in result)
+    ctx.oblige("post", "the-result-consists-of-parameters-of-the-input,each-at-most-once,in-order", ok and [i for r in result for i, p in enumerate(d["params"]) if p is r] == sorted({i for r in result for i, p in enumerate(d["params"]) if p is r}))
+    if not ok:
+        return
+    kept = [any(r is p for r in result) for p in d["params"]]
+    ignored = lambda nm: z3.Or(*[z3.And(d["path"] == z3.StringVal(k), z3.Or(*[nm == z3.StringVal(x) for x in v])) for k, v in d["table"].items()]) if d["table"] else z3.BoolVal(False)  # noqa: E731
+    ctx.oblige("post", "a-parameter-is-dropped-exactly-when-the-ignore-table-lists-its-name-for-this-component's-import-path;every-other-parameter-is-kept", z3.And(*[z3.BoolVal(kept[i]) == z3.Not(ignored(d["names"][i])) for i in range(len(kept))]) if kept else True)
+    ctx.oblige("frame", "the-input-list-is-not-modified", same_list(st.env["params"], d["params"]))
+    ctx.oblige("post", "the-table-is-consulted-for-this-visitor's-component", all(e[1] is d["comp"] for e in ctx.events if e[0] == "import-path"))
+
+
+def gcg_setup(ctx):
+    ns = {"GLOBAL": 1}
+    module = Rec("module", attrs={"__dict__": ns})
+    comp = Rec("component", attrs={"__module__": "pkg.mod_of_component"})
+    parent = Rec("class Parent", attrs={"__module__": "pkg.mod_of_parent"})
+    self = visitor(component=comp, parent=parent)
+    calls = {"import_module": lambda c, a, k: (c.event("import", a[0]), module)[1]}
+    return Setup(env={"self": self}, calls=calls, data=dict(ns=ns))
+
+
+def gcg_post(ctx, st, result):
+    ev = [e for e in ctx.events if e[0] == "import"]
+    ctx.oblige("post", "the-globals-are-the-namespace-of-the-module-that-defines-the-component(where its body's names are looked up at run time),not-the-parent-class's-module", result is st.data["ns"] and len(ev) == 1 and ev[0][1] == "pkg.mod_of_component")
+
+
+CCT = ["K(..)", "mod.K(..)", "mod.sub.K(..)", "f(..)[a function]", "unknown(..)", "mod.unknown(..)", "f()(..)", "no-call:constant"]
+
+
+def cct_setup(ctx):
+    ast_classes(ctx)
+    form = CCT[ctx.choose(len(CCT), "default-expression")]
+    K, K2, K3, F = Rec("class K"), Rec("class mod.K"), Rec("class mod.sub.K"), Rec("function f")
+    mod = Rec("module mod", attrs={"K": K2, "sub": Rec("module mod.sub", attrs={"K": K3})})
+    globs = {"K": K, "mod": mod, "f": F}
+    func = {"K(..)": lambda: name("K"), "mod.K(..)": lambda: attribute(name("mod"), "K"), "mod.sub.K(..)": lambda: attribute(attribute(name("mod"), "sub"), "K"), "f(..)[a function]": lambda: name("f"),
+            "unknown(..)": lambda: name("unknown"), "mod.unknown(..)": lambda: attribute(name("mod"), "unknown"), "f()(..)": lambda: call(name("K")), "no-call:constant": lambda: None}[form]()
+    node = call(func, [], [kw("x", const(1))]) if func is not None else const(3)
+    self = visitor()
+    self.methods["get_component_globals"] = lambda c, s_, a, k: globs
+    def name_and_attrs(c, a, k):  # (the real helper reverses with names[::-1]: a slice step, outside the engine's subset)
+        names, nd = [], a[0]
+        while isinstance(nd, Rec) and nd.cls == "Attribute":
+            names.append(nd.attrs["attr"])
+            nd = nd.attrs["value"]
+        if isinstance(nd, Rec) and nd.cls == "Name":
+            names.append(nd.attrs["id"])
+        return names[::-1]
+
+    calls = {"inspect.isclass": lambda c, a, k: isinstance(a[0], Rec) and a[0].cls.startswith("class "), "ast_get_name_and_attrs": name_and_attrs}
+    return Setup(env={"self": self, "node": node}, calls=calls, consts=HELPER_CONSTS, data=dict(form=form, want={"K(..)": K, "mod.K(..)": K2, "mod.sub.K(..)": K3}.get(form)))
+
+
+def cct_post(ctx, st, result):
+    d = st.data
+    ctx.oblige("post", f"the-class-a-default-expression-instantiates-is-the-object-its-dotted-name-denotes-in-the-component's-module;anything-that-is-no-class(function,unknown name,call result,no call)-gives-None[{d['form']}]", result is d["want"])
+
+
+def gdn_setup(ctx):
+    ast_classes(ctx)
+    n_pos, n_args, n_kwonly = ctx.choose(2, "n-positional-only"), ctx.choose(3, "n-args"), ctx.choose(2, "n-keyword-only")
+    total = n_pos + n_args
+    n_def = ctx.choose(total + 1, "n-defaults")
+    kw_has_default = ctx.choose(2, "kwonly-has-default") == 1 if n_kwonly else False
+    pos = [N("arg", arg=f"q{i}") for i in range(n_pos)]
+    args = [N("arg", arg=f"a{i}") for i in range(n_args)]
+    kwonly = [N("arg", arg=f"k{i}") for i in range(n_kwonly)]
+    defaults = [N("Constant", value=i) for i in range(n_def)]
+    kw_defaults = [N("Constant", value="kwdefault") if kw_has_default else None for _ in kwonly]
+    all_names = [a.attrs["arg"] for a in pos + args + kwonly]
+    mask = ctx.choose(2 ** len(all_names), "names-asked-for")
+    asked = {nm for i, nm in enumerate(all_names) if mask >> i & 1}
+    # precondition of the only caller: the names are parameters whose default is a class instance, so every name asked for has a default
+    default_of = {}
+    for i, a in enumerate(pos + args):
+        j = i - (total - n_def)
+        default_of[a.attrs["arg"]] = defaults[j] if j >= 0 else None
+    for a, dn in zip(kwonly, kw_defaults):
+        default_of[a.attrs["arg"]] = dn
+    ctx.assume(all(default_of[nm] is not None for nm in asked))
+    arguments = N("arguments", posonlyargs=pos, args=args, kwonlyargs=kwonly, defaults=defaults, kw_defaults=kw_defaults, vararg=None, kwarg=None)
+    self = visitor(component_node=N("FunctionDef", args=arguments))
+    return Setup(env={"self": self, "param_names": set(asked)}, consts=HELPER_CONSTS, data=dict(asked=asked, all_names=all_names, default_of=default_of, n_kwonly=n_kwonly))
+
+
+def gdn_post(ctx, st, result):
+    d = st.data
+    want = [d["default_of"][nm] for nm in d["all_names"] if nm in d["asked"]]
+    kwonly_asked = any(nm.startswith("k") for nm in d["asked"])
+    ctx.oblige("post", "one-default-node-per-parameter-asked-for,in-signature-order:the-expression-written-after-`=`-for-that-parameter" + ("[a keyword-only parameter is asked for]" if kwonly_asked else "[positional parameters]"),
+               same_list(result, want), note=f"asked {sorted(d['asked'])} of {d['all_names']}")
+
+
+def gpfa_setup(ctx):
+    fc, logger = Rec("class K"), Rec("logger")
+    params = [Rec("ParamData")]
+    made = []
+
+    def new_visitor(c, a, k):
+        made.append((tuple(a), dict(k)))
+        return Rec("ParametersVisitor", methods={"get_parameters": lambda c2, s_, a2, k2: (c2.event("get_parameters"), params)[1]})
+
+    return Setup(env={"function_or_class": fc, "method_or_property": "run", "logger": logger}, calls={"ParametersVisitor": new_visitor}, data=dict(fc=fc, logger=logger, params=params, made=made))
+
+
+def gpfa_post(ctx, st, result):
+    d = st.data
+    ctx.oblige("post", "the-AST-resolver's-answer-is-get_parameters()-of-a-visitor-for(the component,the method,the logger)",
+               result is d["params"] and len(d["made"]) == 1 and len(d["made"][0][0]) == 2 and d["made"][0][0][0] is d["fc"] and d["made"][0][0][1] == "run" and d["made"][0][1] == {"logger": d["logger"]})
+
+
+def units_callee(prop):
+    T_INSPECT = "inspect.getmodule / getmembers / getattr_static / isclass / isfunction / getsource answer for the live objects as documented"
+    return [
+        Unit(prop, PV + "get_node_component", gnc_setup, gnc_post, never, trusted=[AST_TRUST, T_INSPECT, "is_classmethod, get_component_from_source: their own units"]),
+        Unit(prop, PV + "get_component_from_source", gcfs_setup, gcfs_post, gcfs_raises, trusted=["exec(compile(module)) runs the statements of the module in the namespace given; ast.parse('') is an empty module"]),
+        Unit(prop, PV + "match_call_that_uses_attr", mc_setup, mc_post, mc_raises, trusted=[AST_TRUST, "get_node_component, get_signature_parameters, remove_given_parameters: their own units"]),
+        Unit(prop, PV + "get_parameters_attr_use_in_members", aum_setup, aum_post, never, max_paths=40000, trusted=[T_INSPECT, "get_parameters_call_attr: its own unit (c13): None when the member does not forward the attribute",
+                                                                                                                    "inspect.getmembers lists the members in one fixed order (sorted by name)"]),
+        Unit(prop, PV + "parse_source_tree", pst_setup, pst_post, pst_raises, expect_cover=("return", "raise:SourceNotAvailable"), trusted=[T_INSPECT, "ast.parse / textwrap.dedent"]),
+        Unit(prop, PV + "get_node_origin", gno_setup, gno_post, never, trusted=["node.lineno >= 1", "get_parameter_origins: its own unit"]),
+        Unit(prop, PV + "remove_ignore_parameters", rip_setup, rip_post, never, trusted=["get_import_path: its own unit (import_paths.py)"]),
+        Unit(prop, PV + "get_component_globals", gcg_setup, gcg_post, never, trusted=["import_module(name) returns the module of that name; vars(module) is its namespace"]),
+        Unit(prop, PV + "get_call_class_type", cct_setup, cct_post, never, trusted=[AST_TRUST, T_INSPECT, "ast_get_name_and_attrs(a.b.c) == ['a', 'b', 'c'], [] for an expression that is no dotted name (by contract: its body uses a slice step)"]),
+        Unit(prop, PV + "get_default_nodes", gdn_setup, gdn_post, never, max_paths=20000, trusted=["ast.arguments: defaults align with the last positional parameters, kw_defaults with kwonlyargs"]),
+        Unit(prop, MOD + ":get_parameters_from_ast", gpfa_setup, gpfa_post, never, trusted=["ParametersVisitor.__init__ / get_parameters: their own units"]),
+    ]
+
+
+
+
+# ============================================================================================================ reading the signature
+KIND_CONSTS = {"kinds." + k: k for k in ("POSITIONAL_ONLY", "POSITIONAL_OR_KEYWORD", "VAR_POSITIONAL", "KEYWORD_ONLY", "VAR_KEYWORD")}
+KIND_CONSTS["inspect._ParameterKind.KEYWORD_ONLY"] = "KEYWORD_ONLY"
+EMPTY = Rec("inspect._empty")
+KIND_CONSTS["inspect._empty"] = EMPTY
+
+
+def param_data(c, a, k):
+    fields = ["name", "annotation", "default", "kind", "doc", "component", "parent", "origin"]
+    attrs = {"default": EMPTY, "kind": None, "doc": None, "component": None, "parent": None, "origin": None}
+    attrs.update(dict(zip(fields, a)))
+    attrs.update(k)
+    return Rec("ParamData", attrs=attrs)
+
+
+def unknown_default(c, a, k):
+    return Rec("UnknownDefault", attrs={"resolver": a[0] if a else k.get("resolver")})
+
+
+# ------------------------------------------------------------------------------------------------ get_component_and_parent
+FOC = ["class", "generic-alias-of-a-class", "function", "non-callable-object", "class-from-function(function)", "class-from-function(bound classmethod)"]
+MOP = ["None", "'__init__'", "'run'", "the-callable-run"]
+ATTRS = ["missing", "staticmethod", "method", "property", "classmethod", "object.__init__", "other-attribute"]
+OBJ_INIT = Rec("object.__init__")
+
+
+def gcp_setup(ctx):
+    ctx.classes.add("MethodType", ["object"])
+    fk = FOC[ctx.choose(len(FOC), "function_or_class")]
+    mk = MOP[ctx.choose(len(MOP), "method_or_property")]
+    ak = ATTRS[ctx.choose(len(ATTRS), "the-attribute-is")]
+    has_new = ctx.choose(2, "class-defines-its-own-__new__") == 1
+
+    def container(label):
+        c = Rec(label, attrs={"kind": label})
+        c.attrs.update({"__init__": Rec(f"getattr({label}, __init__)"), "run": Rec(f"getattr({label}, run)"), "make": Rec(f"getattr({label}, make)"), "__new__": Rec(f"{label}.__new__")})
+        return c
+
+    foc = container(fk)
+    origin_cls = container("origin class") if fk == "generic-alias-of-a-class" else None
+    wrapped_fn, owner = Rec("wrapped function", attrs={"kind": "function"}), container("class owning the wrapped classmethod")
+    if fk == "class-from-function(function)":
+        foc.attrs["wrapped_function"] = wrapped_fn
+    if fk == "class-from-function(bound classmethod)":
+        foc.attrs["wrapped_function"] = Rec("MethodType", attrs={"__name__": "make", "__self__": owner})
+    mop = {"None": None, "'__init__'": "__init__", "'run'": "run", "the-callable-run": Rec("function run", attrs={"__name__": "run"})}[mk]
+    fget = Rec("fget")
+    attr = {"missing": None, "staticmethod": Rec("staticmethod"), "method": member_obj("method"), "property": Rec("property", attrs={"fget": fget, "__class__": Rec("type", attrs={"__name__": "property"})}),
+            "classmethod": Rec("classmethod", attrs={"__class__": Rec("type", attrs={"__name__": "classmethod"})}), "object.__init__": OBJ_INIT, "other-attribute": member_obj("class-attribute")}[ak]
+    if isinstance(attr, Rec) and "__class__" not in attr.attrs:
+        attr.attrs["__class__"] = Rec("type", attrs={"__name__": attr.cls})
+
+    def getattr_static(c, a, k):
+        c.event("getattr_static", a[0], a[1])
+        if attr is None:
+            raise PyRaise(ExcVal("AttributeError", args=(a[1],), origin="inspect.getattr_static"))
+        return attr
+
+    is_class = lambda x: isinstance(x, Rec) and x.attrs.get("kind") in ("class", "origin class", "class-from-function(function)", "class-from-function(bound classmethod)", "class owning the wrapped classmethod")  # noqa: E731
+    calls = {"is_subclass": lambda c, a, k: isinstance(a[0], Rec) and str(a[0].attrs.get("kind", "")).startswith("class-from-function") and a[1].name == "ClassFromFunctionBase",
+             "get_generic_origin": lambda c, a, k: origin_cls if (a[0] is foc and origin_cls is not None) else a[0], "inspect.isclass": lambda c, a, k: is_class(a[0]),
+             "inspect.getattr_static": getattr_static, "inspect.isfunction": lambda c, a, k: isinstance(a[0], Rec) and a[0].cls == "function",
+             "callable": lambda c, a, k: not (isinstance(a[0], Rec) and a[0].attrs.get("kind") == "non-callable-object"),
+             "has_dunder_new_method": lambda c, a, k: (c.event("has_new", a[0], a[1]), has_new and a[1] == "__init__")[1]}
+    consts = {"MethodType": ClassRef("MethodType"), "object.__init__": OBJ_INIT, "ClassFromFunctionBase": ClassRef("ClassFromFunctionBase")}
+    return Setup(env={"function_or_class": foc, "method_or_property": mop}, calls=calls, consts=consts, inline=inl("is_staticmethod", "is_method", "is_property"),
+                 data=dict(fk=fk, mk=mk, ak=ak, has_new=has_new, foc=foc, origin_cls=origin_cls, wrapped_fn=wrapped_fn, owner=owner, attr=attr, fget=fget))
+
+
+def gcp_expect(d):
+    """What is inspected, in the words of the documentation: -> (outcome, component, parent, name)."""
+    foc, name = d["foc"], {"None": None, "'__init__'": "__init__", "'run'": "run", "the-callable-run": "run"}[d["mk"]]
+    lookup_in = d["origin_cls"] or foc
+    if d["fk"].startswith("class-from-function") and name in (None, "__init__"):
+        if d["fk"].endswith("(function)"):
+            return ("ok", d["wrapped_fn"], None, None, "a-class-made-from-a-function-stands-for-that-function")
+        foc, name, lookup_in = d["owner"], "make", d["owner"]   # made from a bound classmethod: that method of its class
+    elif name is None:
+        if d["fk"] in ("class", "generic-alias-of-a-class"):
+            name = "__init__"
+        elif d["fk"] == "function":
+            return ("ok", foc, None, None, "a-function-is-inspected-itself,without-parent")
+        else:
+            return ("ValueError", None, None, None, "something-that-cannot-be-called-is-refused-with-ValueError")
+    ak = d["ak"]
+    if ak == "missing":
+        return ("AttributeError", None, None, None, "a-method-the-class-does-not-have-is-AttributeError")
+    if ak == "staticmethod":
+        return ("ok", foc.attrs[name], None, name, "a-static-method-is-inspected-as-the-plain-function-it-is:no-parent(no self to drop)")
+    if d["has_new"] and name == "__init__":
+        return ("ok", foc.attrs["__new__"], foc, name, "a-class-that-defines-its-own-__new__-is-constructed-through-it")
+    if ak == "method":
+        return ("ok", d["attr"], foc, name, "a-method-is-the-function-found-in-the-class,with-the-class-as-parent")
+    if ak == "property":
+        return ("ok", d["fget"], foc, name, "a-property-is-its-getter")
+    if ak == "classmethod":
+        return ("ok", foc.attrs[name], foc, name, "a-class-method-is-the-bound-method-of-the-class")
+    if ak == "object.__init__":
+        return ("ok", None, foc, name, "a-class-without-constructor-of-its-own(object.__init__)-has-no-component-to-inspect")
+    return ("ValueError", None, None, None, "an-attribute-that-is-no-method/property-is-refused-with-ValueError")
+
+
+def gcp_tag(d):
+    return f"[{d['fk']};{d['mk']};attribute:{d['ak']};{'own __new__' if d['has_new'] else 'no own __new__'}]"
+
+
+def gcp_post(ctx, st, result):
+    d = st.data
+    out, comp, parent, name, words = gcp_expect(d)
+    ctx.oblige("post", words + gcp_tag(d), out == "ok" and isinstance(result, tuple) and len(result) == 3 and result[0] is comp and result[1] is parent and result[2] == name)
+    lookups = [e for e in ctx.events if e[0] == "getattr_static"]
+    want_in = d["owner"] if (d["fk"].endswith("(bound classmethod)") and d["mk"] in ("None", "'__init__'")) else (d["origin_cls"] or d["foc"])
+    ctx.oblige("post", "the-attribute-is-looked-up-statically(no descriptor runs),in-the-class(for a generic alias: its origin),at-most-once" + gcp_tag(d), len(lookups) <= 1 and all(e[1] is want_in for e in lookups))
+
+
+def gcp_raises(ctx, st, exc):
+    d = st.data
+    out, _, _, _, words = gcp_expect(d)
+    ctx.oblige("raises", words + f"(got {exc.cls}@{exc.origin})" + gcp_tag(d), exc.cls == out)
+
+
+# ------------------------------------------------------------------------------------------------ get_signature_parameters_and_indexes
+def spi_setup(ctx):
+    where = ["function", "method", "classmethod"][ctx.choose(3, "component-is-a")]
+    n_plain = ctx.choose(3, "n-named")
+    has_args, has_kwargs = ctx.choose(2, "*args") == 1, ctx.choose(2, "**kwargs") == 1
+    args_first = ctx.choose(2, "*args-before-the-named") == 1 if has_args and n_plain else False
+    def sp(nm, kind):
+        return Rec("Parameter", attrs={"name": nm, "kind": kind, "default": z3.Int(f"default({nm})"), "annotation": Rec(f"annotation({nm})")})
+    plain = [sp(f"p{i}", "KEYWORD_ONLY" if args_first else "POSITIONAL_OR_KEYWORD") for i in range(n_plain)]
+    own = ([sp("args", "VAR_POSITIONAL")] if has_args and args_first else []) + plain + ([sp("args", "VAR_POSITIONAL")] if has_args and not args_first else []) + ([sp("kwargs", "VAR_KEYWORD")] if has_kwargs else [])
+    sig_params = ([sp("self", "POSITIONAL_OR_KEYWORD")] if where != "function" else []) + own
+    func = Rec("underlying function of the classmethod")
+    component = Rec("component", attrs={"__func__": func, "__name__": "comp"})
+    parent = Rec("class Parent") if where != "function" else None
+    logger, doc, stubs = Rec("logger"), Rec("doc_params", methods={"get": lambda c, s_, a, k: ("doc-of", a[0])}), Rec("stubs")
+    snap = {}
+
+    def snapshot(tag):
+        def f(c, a, k):
+            snap[tag] = (a[0], [x for x in a[0]] if isinstance(a[0], list) else None, tuple(a[1:]))
+            c.event(tag)
+            return stubs if tag == "stubs" else None
+        return f
+
+    calls = {"is_classmethod": lambda c, a, k: (c.event("is_classmethod", a[0], a[1]), where == "classmethod")[1],
+             "inspect.signature": lambda c, a, k: (c.event("signature", a[0]), Rec("Signature", attrs={"parameters": Rec("mapping", methods={"values": lambda c2, s_, a2, k2: list(sig_params)})}))[1],
+             "parse_docs": lambda c, a, k: (c.event("docs", tuple(a)), doc)[1], "ParamData": param_data,
+             "evaluate_postponed_annotations": snapshot("postponed"), "get_stub_types": snapshot("stubs"), "replace_generic_type_vars": snapshot("generic")}
+    consts = dict(KIND_CONSTS, parameter_attributes=["name", "kind", "default", "annotation"])
+    return Setup(env={"component": component, "parent": parent, "logger": logger}, calls=calls, consts=consts, inline={"get_arg_kind_index": MOD + ":get_arg_kind_index"},
+                 data=dict(where=where, own=own, sig_params=sig_params, func=func, component=component, parent=parent, logger=logger, doc=doc, stubs=stubs, snap=snap, has_args=has_args, has_kwargs=has_kwargs))
+
+
+def spi_post(ctx, st, result):
+    d = st.data
+    own = d["own"]
+    tag = f"[{d['where']};({', '.join(p.attrs['name'] for p in d['sig_params'])})]"
+    ok = isinstance(result, tuple) and len(result) == 5 and isinstance(result[0], list)
+    ctx.oblige("post", "returns(parameters,index of *args,index of **kwargs,docstring parameters,stubs)" + tag, ok and result[3] is d["doc"] and result[4] is d["stubs"])
+    if not ok:
+        return
+    params = result[0]
+    same = len(params) == len(own) and all(isinstance(p, Rec) and p.cls == "ParamData" and p.attrs["name"] == o.attrs["name"] and p.attrs["kind"] == o.attrs["kind"] and p.attrs["default"] is o.attrs["default"]
+                                            and p.attrs["annotation"] is o.attrs["annotation"] for p, o in zip(params, own))
+    ctx.oblige("post", "one-parameter-per-parameter-of-the-signature,in-order,with-its-name,kind,default-and-annotation;the-self/cls-of-a-member-is-not-a-parameter" + tag, same,
+               note=f"got {[getattr(p, 'attrs', {}).get('name') for p in params]}")
+    ctx.oblige("post", "each-carries-its-docstring-entry(by its own name),the-component-and-the-parent" + tag,
+               all(isinstance(p, Rec) and p.attrs.get("doc") == ("doc-of", p.attrs.get("name")) and p.attrs.get("component") is d["component"] and p.attrs.get("parent") is d["parent"] for p in params))
+    names = [getattr(p, "attrs", {}).get("name") for p in params]
+    ctx.oblige("post", "the-indexes-locate-*args-and-**kwargs-in-the-list-returned(-1 when absent)" + tag,
+               result[1] == (names.index("args") if d["has_args"] and "args" in names else -1) and result[2] == (names.index("kwargs") if d["has_kwargs"] and "kwargs" in names else -1)
+               and (result[1] < 0 or params[result[1]].attrs.get("kind") == "VAR_POSITIONAL") and (result[2] < 0 or params[result[2]].attrs.get("kind") == "VAR_KEYWORD"))
+    src = d["func"] if d["where"] == "classmethod" else d["component"]
+    sig = [e for e in ctx.events if e[0] == "signature"]
+    ctx.oblige("post", "the-signature-read-is-that-of-the-component(of the underlying function for a class method:its cls is then the first parameter)" + tag, len(sig) == 1 and sig[0][1] is src)
+    snap = d["snap"]
+    order = [e[0] for e in ctx.events if e[0] in ("postponed", "stubs", "generic")]
+    ctx.oblige("post", "postponed-annotations-are-evaluated,stubs-looked-up-and-type-variables-replaced-on-the-list-returned(already ParamData,self dropped),in-that-order,for-the-same-source/parent/logger" + tag,
+               order == ["postponed", "stubs", "generic"] and all(snap[t][0] is params and len(snap[t][1]) == len(own) and all(x.cls == "ParamData" for x in snap[t][1]) for t in order)
+               and snap["postponed"][2] == (src, d["parent"], d["logger"]) and snap["stubs"][2] == (src, d["parent"], d["logger"]) and snap["generic"][2] == (d["parent"],))
+    docs = [e for e in ctx.events if e[0] == "docs"]
+    ctx.oblige("post", "the-docstring-is-that-of(component,parent)" + tag, len(docs) == 1 and docs[0][1] == (d["component"], d["parent"], d["logger"]))
+
+
+# ------------------------------------------------------------------------------------------------ get_parameters_by_assumptions
+def gba_setup(ctx):
+    has_parent = ctx.choose(2, "method-of-a-class") == 1
+    has_args, has_kwargs = ctx.choose(2, "*args") == 1, ctx.choose(2, "**kwargs") == 1
+    sub_found = ctx.choose(2, "next-definer-in-the-MRO-has-parameters") == 1
+    component, parent, logger, stubs = Rec("component"), (Rec("class Parent") if has_parent else None), Rec("logger"), Rec("stubs")
+    sig_params, sub, replaced, final = [Rec("ParamData", attrs={"name": "own"})], [Rec("ParamData", attrs={"name": "inherited"})], [Rec("ParamData", attrs={"name": "after-mro"})], [Rec("ParamData", attrs={"name": "final"})]
+    open_cms = []
+    me = Rec("get_parameters_by_assumptions")
+
+    def replace(c, a, k):
+        c.event("replace", a[0], a[1], a[2])
+        return final if (a[1] == [] and a[2] == []) else replaced
+
+    calls = {"get_component_and_parent": lambda c, a, k: (c.event("cap", tuple(a)), (component, parent, "resolved-name"))[1],
+             "get_signature_parameters_and_indexes": lambda c, a, k: (c.event("sig", tuple(a)), (sig_params, 1 if has_args else -1, 2 if has_kwargs else -1, Rec("doc"), stubs))[1],
+             "get_mro_parameters": lambda c, a, k: (c.event("mro", tuple(a), list(open_cms)), sub if sub_found else [])[1],
+             "split_args_and_kwargs": lambda c, a, k: (c.event("split", a[0]), (("args-of", a[0]), ("kwargs-of", a[0])))[1], "replace_args_and_kwargs": replace,
+             "add_stub_types": lambda c, a, k: c.event("stub-types", tuple(a))}
+    cms = {"mro_context": (lambda c, a, k: open_cms.append(a[0]), lambda c, t, e: (open_cms.pop(), False)[1])}
+    foc = Rec("function_or_class")
+    return Setup(env={"function_or_class": foc, "method_name": "given-name", "logger": logger}, calls=calls, cms=cms, consts={"get_parameters_by_assumptions": me, "get_signature_parameters": Rec("get_signature_parameters"), "get_parameters_from_ast": Rec("get_parameters_from_ast")},
+                 data=dict(has_parent=has_parent, has_var=has_args or has_kwargs, sub_found=sub_found, component=component, parent=parent, logger=logger, stubs=stubs, sig_params=sig_params, sub=sub, replaced=replaced, final=final,
+                           me=me, foc=foc, open_cms=open_cms))
+
+
+def gba_post(ctx, st, result):
+    d = st.data
+    tag = f"[{'method' if d['has_parent'] else 'function'};{'has' if d['has_var'] else 'no'} *args/**kwargs;MRO {'gives parameters' if d['sub_found'] else 'gives nothing'}]"
+    ev = ctx.events
+    cap, sig, mro, rep, stb = ([e for e in ev if e[0] == t] for t in ("cap", "sig", "mro", "replace", "stub-types"))
+    ctx.oblige("post", "the-signature-read-is-that-of-the-component-and-parent-resolved-from-the-input" + tag, len(cap) == 1 and cap[0][1] == (d["foc"], "given-name") and len(sig) == 1 and sig[0][1] == (d["component"], d["parent"], d["logger"]))
+    inherit = d["has_parent"] and d["has_var"]
+    if inherit:
+        ctx.oblige("post", "a-method-with-*args/**kwargs-is-assumed-to-forward-them-to-the-next-class-of-the-MRO-that-defines-the-method(by its resolved name),resolved-the-same-way,with-the-cursor-at-the-parent" + tag,
+                   len(mro) == 1 and mro[0][1] == ("resolved-name", d["me"], d["logger"]) and len(mro[0][2]) == 1 and mro[0][2][0] is d["parent"])
+    else:
+        ctx.oblige("post", "a-function,or-a-method-without-*args/**kwargs,assumes-nothing:the-MRO-is-not-consulted" + tag, not mro)
+    took = inherit and d["sub_found"]
+    first = [e for e in rep if not (e[2] == [] and e[3] == [])]
+    if took:
+        ctx.oblige("post", "the-inherited-parameters-replace-*args/**kwargs(split into positional and keyword)" + tag, len(first) == 1 and first[0][1] is d["sig_params"] and first[0][2] == ("args-of", d["sub"]) and first[0][3] == ("kwargs-of", d["sub"]))
+    else:
+        ctx.oblige("post", "nothing-inherited=>nothing-is-put-in-place-of-*args/**kwargs" + tag, not first)
+    last = [e for e in rep if e[2] == [] and e[3] == []]
+    before = d["replaced"] if took else d["sig_params"]
+    ctx.oblige("post", "whatever-*args/**kwargs-is-left-is-dropped(never offered as a parameter):the-result-is-the-list-without-them" + tag, len(last) == 1 and last[0][1] is before and result is d["final"] and rep[-1] is last[0])
+    ctx.oblige("post", "stub-types-are-added-to-the-final-list,for-the-component;the-MRO-cursor-is-released" + tag, len(stb) == 1 and stb[0][1] == (d["stubs"], d["final"], d["component"]) and not d["open_cms"] and ev[-1] is stb[0])
+
+
+# ------------------------------------------------------------------------------------------------ get_parameters_from_stubs
+def gfs_setup(ctx):
+    has_stub = ctx.choose(2, "a-stub-exists") == 1
+    has_parent = ctx.choose(2, "method-of-a-class") == 1
+    n_args, n_kwonly = ctx.choose(3, "n-args"), ctx.choose(2, "n-kwonly")
+    fails = ctx.choose(2 ** (n_args + n_kwonly), "annotations-that-cannot-be-resolved") if has_stub else 0
+    args = [N("arg", arg=f"a{i}", annotation=Rec(f"annotation(a{i})")) for i in range(n_args)]
+    kwonly = [N("arg", arg=f"k{i}", annotation=Rec(f"annotation(k{i})")) for i in range(n_kwonly)]
+    all_args = args + kwonly
+    failing = {id(a.attrs["annotation"]) for i, a in enumerate(all_args) if fails >> i & 1}
+    component, parent = Rec("component"), (Rec("class Parent") if has_parent else None)
+    aliases, origin = Rec("aliases"), z3.String("origin")
+    stub_import = Rec("stub import", attrs={"info": Rec("info", attrs={"ast": N("FunctionDef", args=N("arguments", args=args, kwonlyargs=kwonly))})})
+    resolver = Rec("StubsResolver", methods={"get_component_imported_info": lambda c, s_, a, k: (c.event("info", tuple(a)), stub_import if has_stub else None)[1], "get_aliases": lambda c, s_, a, k: (c.event("aliases", a[0]), aliases)[1]})
+
+    def get_arg_type(c, a, k):
+        c.event("arg-type", a[0], a[1])
+        if id(a[0]) in failing:
+            raise PyRaise(ExcVal("NameError", origin="get_arg_type"))
+        return ("type-of", a[0])
+
+    foc = Rec("function_or_class")
+    calls = {"get_component_and_parent": lambda c, a, k: (c.event("cap", tuple(a)), (component, parent, "m"))[1], "get_stubs_resolver": lambda c, a, k: resolver, "get_parameter_origins": lambda c, a, k: (c.event("origins", tuple(a)), origin)[1],
+             "get_arg_type": get_arg_type, "UnknownDefault": unknown_default, "ParamData": param_data}
+    return Setup(env={"function_or_class": foc, "method_or_property": "m", "logger": Rec("logger")}, calls=calls, consts=KIND_CONSTS,
+                 data=dict(has_stub=has_stub, has_parent=has_parent, all_args=all_args, failing=failing, component=component, parent=parent, aliases=aliases, origin=origin, foc=foc))
+
+
+def gfs_post(ctx, st, result):
+    d = st.data
+    tag = f"[{'stub' if d['has_stub'] else 'no stub'};{'method' if d['has_parent'] else 'function'};({', '.join(a.attrs['arg'] for a in d['all_args'])});unresolvable:{len(d['failing'])}]"
+    info = [e for e in ctx.events if e[0] == "info"]
+    ctx.oblige("post", "the-stub-is-looked-up-for-the-component-and-parent-resolved-from-the-input" + tag, len(info) == 1 and info[0][1] == (d["component"], d["parent"]) and [e[1] for e in ctx.events if e[0] == "cap"] == [(d["foc"], "m")])
+    if not d["has_stub"]:
+        ctx.oblige("post", "no-stub=>the-resolver-does-not-apply(None,not an empty list:the next resolver is tried)" + tag, result is None)
+        return
+    want = d["all_args"][1:] if d["has_parent"] else d["all_args"]
+    ok = isinstance(result, list) and len(result) == len(want)
+    ctx.oblige("post", "one-parameter-per-argument-of-the-stub(positional then keyword-only),in-order;the-self/cls-of-a-member-is-skipped" + tag, ok and all(p.attrs["name"] == a.attrs["arg"] for p, a in zip(result, want)))
+    if not ok:
+        return
+    ctx.oblige("post", "its-type-is-the-stub's-annotation-resolved-with-the-stub's-aliases;an-annotation-that-cannot-be-resolved-leaves-the-parameter-untyped(it is still offered)" + tag,
+               all((p.attrs["annotation"] is EMPTY) if id(a.attrs["annotation"]) in d["failing"] else (p.attrs["annotation"] == ("type-of", a.attrs["annotation"])) for p, a in zip(result, want))
+               and all(e[2] is d["aliases"] for e in ctx.events if e[0] == "arg-type"))
+    ctx.oblige("post", "a-stub-knows-no-defaults:every-parameter-is-keyword-only-with-an-unknown-default(optional),of-this-component/parent/origin" + tag,
+               all(p.attrs["kind"] == "KEYWORD_ONLY" and isinstance(p.attrs["default"], Rec) and p.attrs["default"].cls == "UnknownDefault" and p.attrs["default"].attrs["resolver"] == "stubs-resolver"
+                   and p.attrs["component"] is d["component"] and p.attrs["parent"] is d["parent"] and p.attrs["origin"] is d["origin"] for p in result)
+               and len({id(p.attrs["default"]) for p in result}) == len(result))
+
+
+# ------------------------------------------------------------------------------------------------ add_stub_types
+def ast_setup(ctx):
+    n = ctx.choose(3, "n-params")
+    typed = [ctx.choose(2, f"p{i}-has-an-annotation") == 1 for i in range(n)]
+    stubs_kind = ["None", "empty", "given"][ctx.choose(3, "stubs")]
+    mask = ctx.choose(2 ** n, "stub-entries-for-params") if stubs_kind == "given" else 0
+    n_extra = ctx.choose(3, "stub-entries-for-other-names") if stubs_kind == "given" else 0
+    if stubs_kind == "given" and mask == 0 and n_extra == 0:
+        ctx.assume(False)
+    own_types = [Rec(f"own type of p{i}") if typed[i] else EMPTY for i in range(n)]
+    params = [Rec("ParamData", attrs={"name": f"p{i}", "annotation": own_types[i], "default": z3.Int(f"default{i}"), "kind": "POSITIONAL_OR_KEYWORD", "component": Rec("own component")}) for i in range(n)]
+    snapshot = [dict(p.attrs) for p in params]
+    stubs = None if stubs_kind == "None" else {}
+    if stubs_kind == "given":
+        for i in range(n):
+            if mask >> i & 1:
+                stubs[f"p{i}"] = Rec(f"stub type of p{i}")
+        for j in range(n_extra):
+            stubs[f"x{j}"] = Rec(f"stub type of x{j}")
+    component = Rec("component")
+    lst = list(params)
+    return Setup(env={"stubs": stubs, "params": lst, "component": component}, calls={"UnknownDefault": unknown_default, "ParamData": param_data}, consts=KIND_CONSTS,
+                 data=dict(n=n, typed=typed, stubs=stubs, stubs_before=dict(stubs) if stubs else stubs, params=params, snapshot=snapshot, lst=lst, component=component, n_extra=n_extra))
+
+
+def ast_post(ctx, st, result):
+    d = st.data
+    lst, stubs, n = d["lst"], d["stubs"] or {}, d["n"]
+    tag = f"[typed:{d['typed']};stubs:{sorted(stubs) if d['stubs'] is not None else None}]"
+    ctx.oblige("post", "the-parameters-of-the-signature-stay,in-order,the-same-objects" + tag, len(lst) >= n and all(lst[i] is d["params"][i] for i in range(n)))
+    ctx.oblige("post", "an-untyped-parameter-takes-the-stub's-type;a-typed-one-keeps-its-own;name,default,kind-and-component-never-change" + tag,
+               all(p.attrs["annotation"] is (stubs[f"p{i}"] if (not d["typed"][i] and f"p{i}" in stubs) else d["snapshot"][i]["annotation"]) and all(p.attrs[k] is d["snapshot"][i][k] for k in ("name", "default", "kind", "component"))
+                   for i, p in enumerate(d["params"])))
+    extra = lst[n:]
+    want = [k for k in stubs if k.startswith("x")]
+    ctx.oblige("post", "a-name-only-the-stub-knows-is-offered-once,after-the-others:keyword-only,typed-by-the-stub,unknown-default,of-this-component" + tag,
+               [p.attrs["name"] for p in extra] == want and all(p.attrs["annotation"] is stubs[p.attrs["name"]] and p.attrs["kind"] == "KEYWORD_ONLY" and p.attrs["component"] is d["component"]
+                                                                 and isinstance(p.attrs["default"], Rec) and p.attrs["default"].cls == "UnknownDefault" and p.attrs["default"].attrs["resolver"] == "stubs-resolver" for p in extra))
+    ctx.oblige("frame", "the-stubs-are-not-modified;nothing-is-returned" + tag, result is None and (d["stubs"] is None or d["stubs"] == d["stubs_before"]))
+
+
+# ------------------------------------------------------------------------------------------------ unpack_typed_dict_kwargs
+def utd_setup(ctx):
+    n_before = ctx.choose(3, "params-before-**kwargs")
+    kind = ["untyped", "plain-annotation(**kwargs: int)", "Unpack[TypedDict]", "Unpack-with-two-arguments", "Unpack-without-arguments"][ctx.choose(5, "annotation-of-**kwargs")]
+    n_keys = ctx.choose(3, "keys-of-the-TypedDict") if kind == "Unpack[TypedDict]" else 0
+    clash = ctx.choose(2, "a-key-named-like-an-existing-parameter") == 1 if (n_keys and n_before) else False
+    before = [Rec("ParamData", attrs={"name": f"p{i}", "annotation": EMPTY, "kind": "POSITIONAL_OR_KEYWORD"}) for i in range(n_before)]
+    key_names = [("p0" if (clash and j == 0) else f"key{j}") for j in range(n_keys)]
+    td = Rec("class TD", attrs={"__annotations__": {k: Rec(f"type of {k}") for k in key_names}})
+    annotation = {"untyped": EMPTY, "plain-annotation(**kwargs: int)": Rec("int"), "Unpack[TypedDict]": Rec("Unpack[TD]", attrs={"__args__": (td,)}), "Unpack-with-two-arguments": Rec("Unpack[..]", attrs={"__args__": (td, td)}),
+                  "Unpack-without-arguments": Rec("Unpack")}[kind]
+    kwp = Rec("ParamData", attrs={"name": "kwargs", "annotation": annotation, "kind": "VAR_KEYWORD", "component": Rec("component"), "parent": Rec("parent"), "origin": Rec("origin"), "default": EMPTY, "doc": "doc of kwargs"})
+    params = before + [kwp]
+    calls = {"is_unpack_typehint": lambda c, a, k: isinstance(a[0], Rec) and a[0].cls.startswith("Unpack"), "ParamData": param_data}
+    return Setup(env={"params": params, "kwargs_idx": n_before}, calls=calls, consts=KIND_CONSTS, data=dict(kind=kind, before=before, kwp=kwp, params=params, td=td, key_names=key_names, n_before=n_before))
+
+
+def utd_post(ctx, st, result):
+    d = st.data
+    params = d["params"]
+    tag = f"[{d['n_before']} before;{d['kind']};keys:{d['key_names']}]"
+    if d["kind"] != "Unpack[TypedDict]":
+        ctx.oblige("post", "a-**kwargs-that-is-not-Unpack[..]-stays:same-index,list-untouched" + tag, d["kind"] in ("untyped", "plain-annotation(**kwargs: int)") and result == d["n_before"] and same_list(params, d["before"] + [d["kwp"]]))
+        return
+    ctx.oblige("post", "**kwargs: Unpack[TD]-is-gone:-1(nothing left to resolve through the body)" + tag, result == -1)
+    new = params[d["n_before"]:]
+    ctx.oblige("post", "the-other-parameters-stay-in-place" + tag, same_list(params[:d["n_before"]], d["before"]) and all(p is not d["kwp"] for p in params))
+    anns = d["td"].attrs["__annotations__"]
+    ctx.oblige("post", "in-its-place:one-keyword-only-parameter-per-key-of-TD,in-TD's-order,typed-as-TD-says,of-the-**kwargs'-component/parent/origin" + tag,
+               [p.attrs["name"] for p in new] == d["key_names"] and all(p.attrs["annotation"] is anns[p.attrs["name"]] and p.attrs["kind"] == "KEYWORD_ONLY" and p.attrs["component"] is d["kwp"].attrs["component"]
+                                                                        and p.attrs["parent"] is d["kwp"].attrs["parent"] and p.attrs["origin"] is d["kwp"].attrs["origin"] and p.attrs["default"] is EMPTY and p.attrs["doc"] is None for p in new))
+
+
+def utd_raises(ctx, st, exc):
+    d = st.data
+    ctx.oblige("raises", f"only-a-malformed-Unpack(not exactly one argument)-is-refused,with-AssertionError(got {exc.cls}@{exc.origin})[{d['kind']}]", exc.cls == "AssertionError" and d["kind"] in ("Unpack-with-two-arguments", "Unpack-without-arguments"))
+
+
+# ------------------------------------------------------------------------------------------------ replace_generic_type_vars
+def rgv_setup(ctx):
+    pk = ["not-generic(plain class)", "no-parent", "generic-alias-without-arguments", "origin-without-type-variables", "Parent[int, str]"][ctx.choose(5, "parent")]
+    py = [(3, 9), (3, 12)][ctx.choose(2, "python-version")]
+    T, U, V = Rec("TypeVar T"), Rec("TypeVar U"), Rec("TypeVar V (of another class)")
+    INT, STR = Rec("class int"), Rec("class str")
+    made = []
+
+    def origin(label, module="typing"):
+        o = Rec(label, attrs={"__module__": module, "__name__": label.split()[-1]})
+        o.methods["__getitem__"] = lambda c, s_, a, k: (made.append((s_, a[0])), Rec(f"{label}[...]", attrs={"__origin__": s_, "__args__": a[0], "made": True}))[1]
+        return o
+
+    LIST, DICT, builtin_list = origin("typing List"), origin("typing Dict"), origin("builtins list", module="builtins")
+    typing_mod = Rec("module typing", attrs={"List": LIST, "Dict": DICT})
+    shapes = {"T": T, "U": U, "V(foreign type variable)": V, "int": INT, "untyped": EMPTY,
+              "List[T]": Rec("List[T]", attrs={"__origin__": LIST, "__args__": (T,)}), "Dict[str, List[U]]": Rec("Dict[..]", attrs={"__origin__": DICT, "__args__": (STR, Rec("List[U]", attrs={"__origin__": LIST, "__args__": (U,)}))}),
+              "list[T](builtin generic)": Rec("list[T]", attrs={"__origin__": builtin_list, "__args__": (T,)}), "List[int](nothing to replace)": Rec("List[int]", attrs={"__origin__": LIST, "__args__": (INT,)})}
+    keys = list(shapes)
+    picks = [keys[ctx.choose(len(keys), "annotation-of-p0")], keys[ctx.choose(len(keys), "annotation-of-p1")] if ctx.choose(2, "two-params") == 1 else None]
+    picks = [p for p in picks if p]
+    params = [Rec("ParamData", attrs={"name": f"p{i}", "annotation": shapes[p], "default": z3.Int(f"d{i}")}) for i, p in enumerate(picks)]
+    origin_cls = Rec("class Parent", attrs={"__parameters__": (T, U) if pk != "origin-without-type-variables" else ()})
+    parent = {"not-generic(plain class)": Rec("class Plain"), "no-parent": None, "generic-alias-without-arguments": Rec("Parent[]", attrs={"__origin__": origin_cls, "__args__": ()}),
+              "origin-without-type-variables": Rec("Other[int]", attrs={"__origin__": origin_cls, "__args__": (INT,)}), "Parent[int, str]": Rec("Parent[int, str]", attrs={"__origin__": origin_cls, "__args__": (INT, STR)})}[pk]
+    calls = {"is_generic_class": lambda c, a, k: isinstance(a[0], Rec) and "__origin__" in a[0].attrs, "dict": lambda c, a, k: dict(a[0]), "__import__": lambda c, a, k: typing_mod}
+    return Setup(env={"params": params, "parent": parent}, calls=calls, consts={"sys.version_info": py},
+                 data=dict(pk=pk, py=py, picks=picks, params=params, shapes=shapes, T=T, U=U, V=V, INT=INT, STR=STR, LIST=LIST, DICT=DICT, builtin_list=builtin_list, lst=list(params)))
+
+
+def rgv_post(ctx, st, result):
+    d = st.data
+    tag = f"[{d['pk']};{d['picks']};py{d['py'][0]}.{d['py'][1]}]"
+    active = d["pk"] == "Parent[int, str]"
+    sub = {id(d["T"]): d["INT"], id(d["U"]): d["STR"]}
+
+    def matches(got, orig):
+        """got is orig with T->int, U->str, structure and origins kept"""
+        if id(orig) in sub:
+            return got is sub[id(orig)]
+        if isinstance(orig, Rec) and orig.attrs.get("__args__"):
+            o = orig.attrs["__origin__"]
+            allowed = [o] + ([d["LIST"]] if (o is d["builtin_list"] and d["py"] < (3, 10)) else [])   # before 3.10 a builtin generic is rebuilt through its typing twin
+            return isinstance(got, Rec) and any(got.attrs.get("__origin__") is x for x in allowed) and len(got.attrs.get("__args__", ())) == len(orig.attrs["__args__"]) and all(matches(g, a) for g, a in zip(got.attrs["__args__"], orig.attrs["__args__"]))
+        return got is orig
+
+    if not active:
+        ctx.oblige("post", "a-parent-that-is-no-subscripted-generic-with-type-variables-changes-nothing" + tag, all(p.attrs["annotation"] is d["shapes"][k] for p, k in zip(d["params"], d["picks"])))
+    else:
+        ctx.oblige("post", "in-Parent[int, str]-every-occurrence-of-the-class's-type-variables(at any depth)-reads-as-the-argument-given;everything-else(other variables,classes,origins,untyped)-is-kept" + tag,
+                   all(matches(p.attrs["annotation"], d["shapes"][k]) for p, k in zip(d["params"], d["picks"])))
+    ctx.oblige("frame", "only-annotations-change:the-list,the-parameters'-other-fields-and-the-hints-given-are-not-modified" + tag,
+               same_list(st.env["params"], d["lst"]) and all(p.attrs["name"] == f"p{i}" and is_z3(p.attrs["default"]) for i, p in enumerate(d["params"]))
+               and all("made" in v.attrs or len(v.attrs.get("__args__", ())) == (2 if k.startswith("Dict") else 1) for k, v in d["shapes"].items() if isinstance(v, Rec) and "__args__" in v.attrs))
+
+
+def units_signature(prop):
+    return [
+        Unit(prop, MOD + ":get_component_and_parent", gcp_setup, gcp_post, gcp_raises, expect_cover=("return", "raise:ValueError", "raise:AttributeError"), max_paths=2000,
+             trusted=["inspect.getattr_static / inspect.isclass / callable / get_generic_origin / is_subclass answer for the live objects as documented", "has_dunder_new_method, is_staticmethod/is_method/is_property (inlined): their own units"]),
+        Unit(prop, MOD + ":get_signature_parameters_and_indexes", spi_setup, spi_post, never, max_paths=2000,
+             trusted=["inspect.signature(f).parameters lists f's parameters in order (self/cls first for the plain function of a member)", "parse_docs, evaluate_postponed_annotations, get_stub_types by contract; replace_generic_type_vars: its own unit"]),
+        Unit(prop, MOD + ":get_parameters_by_assumptions", gba_setup, gba_post, never,
+             trusted=["get_component_and_parent, get_signature_parameters_and_indexes, add_stub_types: their own units (this module); get_mro_parameters, mro_context, split_args_and_kwargs, replace_args_and_kwargs: units of c13"]),
+        Unit(prop, MOD + ":get_parameters_from_stubs", gfs_setup, gfs_post, never, max_paths=4000, trusted=["the stubs resolver (typeshed) by contract: the imported stub of (component, parent) or None; get_arg_type resolves an annotation or raises"]),
+        Unit(prop, MOD + ":add_stub_types", ast_setup, ast_post, never, max_paths=4000, trusted=["UnknownDefault only records its resolver"]),
+        Unit(prop, MOD + ":unpack_typed_dict_kwargs", utd_setup, utd_post, utd_raises, expect_cover=("return", "raise:AssertionError"), trusted=["is_unpack_typehint: Unpack[..] and nothing else; TD.__annotations__ lists the keys in order"]),
+        Unit(prop, MOD + ":replace_generic_type_vars", rgv_setup, rgv_post, never, max_paths=4000, trusted=["typing: alias.__origin__ / __args__ / origin.__parameters__; origin[args] builds the alias; before 3.10 typing.<Name> is the subscriptable twin of a builtin generic"]),
+    ]
+
+
+
+
+# ============================================================================================================ predicates and small helpers
+PRED_KINDS = ["method", "property", "staticmethod", "classmethod", "cython-method", "class-attribute"]
+
+
+def pred_setup(ctx):
+    kind = PRED_KINDS[ctx.choose(len(PRED_KINDS), "attr")]
+    attr = member_obj(kind)
+    calls = {"inspect.isfunction": lambda c, a, k: isinstance(a[0], Rec) and a[0].cls == "function"}
+    return Setup(env={"attr": attr}, calls=calls, inline=inl("is_staticmethod", "is_method", "is_property"), data=dict(kind=kind))
+
+
+def pred_post(words, true_for):
+    def post(ctx, st, result):
+        ctx.oblige("post", words + f"[{st.data['kind']}]", result is (st.data["kind"] in true_for))
+    return post
+
+
+def icm_setup(ctx):
+    has_parent = ctx.choose(2, "parent") == 1
+    kind = (PRED_KINDS + ["missing"])[ctx.choose(len(PRED_KINDS) + 1, "static-attribute-of-that-name")]
+    parent = Rec("class Parent") if has_parent else None
+    component = Rec("component", attrs={"__name__": "make"})
+
+    def getattr_static(c, a, k):
+        c.event("lookup", a[0], a[1])
+        if kind == "missing":
+            raise PyRaise(ExcVal("AttributeError", args=(a[1],), origin="getattr_static"))
+        return member_obj(kind)
+
+    return Setup(env={"parent": parent, "component": component}, calls={"inspect.getattr_static": getattr_static}, cms={"suppress": suppress_cm()}, data=dict(has_parent=has_parent, kind=kind, parent=parent))
+
+
+def icm_post(ctx, st, result):
+    d = st.data
+    ctx.oblige("post", f"true-exactly-for-a-component-whose-name-is-bound-to-a-classmethod-object-in-its-class(looked up statically);a-plain-function-or-a-name-the-class-lacks-is-not[{'member' if d['has_parent'] else 'function'};{d['kind']}]",
+               result is (d["has_parent"] and d["kind"] == "classmethod"))
+    ctx.oblige("post", "the-lookup-is-by-the-component's-own-name,in-the-parent", all(e[1] is d["parent"] and e[2] == "make" for e in ctx.events) and len(ctx.events) == (1 if d["has_parent"] else 0))
+
+
+def il_setup(ctx):
+    kind = ["callable-with-a-name", "callable-without-__name__(partial)", "non-callable-with-a-name", "None"][ctx.choose(4, "value")]
+    nm = z3.String("__name__")
+    value = {"callable-with-a-name": Rec("function", attrs={"__name__": nm}), "callable-without-__name__(partial)": Rec("partial"), "non-callable-with-a-name": Rec("object", attrs={"__name__": nm, "nc": True}), "None": None}[kind]
+    return Setup(env={"value": value}, calls={"callable": lambda c, a, k: isinstance(a[0], Rec) and "nc" not in a[0].attrs}, data=dict(kind=kind, nm=nm), watch={"name": nm})
+
+
+def il_post(ctx, st, result):
+    d = st.data
+    want = (d["nm"] == z3.StringVal("<lambda>")) if d["kind"] == "callable-with-a-name" else z3.BoolVal(False)
+    ctx.oblige("post", f"a-lambda-is-a-callable-whose-__name__-is-'<lambda>';nothing-else-is[{d['kind']}]", (result == want) if is_z3(result) else (z3.BoolVal(bool(result)) == want))
+
+
+def hdn_setup(ctx):
+    attr_name = ["__init__", "run"][ctx.choose(2, "attr_name")]
+    new = ["object.__new__", "its-own", "inherited-from-first-base", "inherited-from-second-base"][ctx.choose(4, "cls.__new__-is")]
+    generic = ctx.choose(2, "cls-is-a-generic-alias") == 1
+    OBJ_NEW, OWN, B1, B2 = Rec("object.__new__"), Rec("own __new__"), Rec("base1 __new__"), Rec("base2 __new__")
+    the_new = {"object.__new__": OBJ_NEW, "its-own": OWN, "inherited-from-first-base": B1, "inherited-from-second-base": B2}[new]
+    base1, base2, obj = Rec("class Base1", attrs={"__new__": B1}), Rec("class Base2", attrs={"__new__": B2}), Rec("class object", attrs={"__new__": OBJ_NEW})
+    origin = Rec("class K", attrs={"__new__": the_new})
+    cls = Rec("K[int]", attrs={"__new__": the_new, "__origin__": origin}) if generic else origin
+    calls = {"get_generic_origin": lambda c, a, k: a[0].attrs.get("__origin__", a[0]), "inspect.getmro": lambda c, a, k: (c.event("mro", a[0]), (origin, base1, base2, obj))[1]}
+    return Setup(env={"cls": cls, "attr_name": attr_name}, calls=calls, consts={"object.__new__": OBJ_NEW}, data=dict(attr_name=attr_name, new=new, origin=origin, generic=generic))
+
+
+def hdn_post(ctx, st, result):
+    d = st.data
+    ctx.oblige("post", f"true-exactly-when-the-constructor-is-asked-for(__init__)-and-the-class-defines-__new__-itself(not object's,not one inherited from a base)[{d['attr_name']};{d['new']};{'generic alias' if d['generic'] else 'class'}]",
+               result is (d["attr_name"] == "__init__" and d["new"] == "its-own"))
+    ctx.oblige("post", "the-bases-are-those-of-the-class(of the origin of a generic alias)", all(e[1] is d["origin"] for e in ctx.events))
+
+
+# ------------------------------------------------------------------------------------------------ get_parameter_origins
+PO = ["function", "method", "pair-of-functions", "pair-of-methods", "pair-with-parents-of-other-length", "List[Union[A, B]]-typehint"]
+
+
+def gpo_setup(ctx):
+    case = PO[ctx.choose(len(PO), "component")]
+    seq_origin = Rec("list origin")
+
+    def comp(i):
+        return Rec(f"component{i}", attrs={"__name__": z3.String(f"name{i}")})
+
+    c0, c1, p0, p1 = comp(0), comp(1), Rec("class P0"), Rec("class P1")
+    paths = {id(x): z3.String(f"import_path({x.cls})") for x in (c0, c1, p0, p1)}
+    hint = Rec("List[Union[A, B]]", attrs={"origin": seq_origin})
+    component, parent = {"function": (c0, None), "method": (c0, p0), "pair-of-functions": ((c0, c1), None), "pair-of-methods": ((c0, c1), (p0, p1)), "pair-with-parents-of-other-length": ((c0, c1), (p0,)),
+                         "List[Union[A, B]]-typehint": (hint, None)}[case]
+    calls = {"get_typehint_origin": lambda c, a, k: a[0].attrs.get("origin") if isinstance(a[0], Rec) else None, "get_subclass_types": lambda c, a, k: (c.event("subclass-types", a[0], dict(k)), (c0, c1))[1],
+             "get_import_path": lambda c, a, k: paths[id(a[0])] if id(a[0]) in paths else _no_such_field(c, Rec("NoneType"), ("__module__",), {}), "iter_to_set_str": lambda c, a, k: ("set-str", list(a[0]))}
+    return Setup(env={"component": component, "parent": parent}, calls=calls, consts={"sequence_origin_types": (seq_origin,)}, inline={"get_parameter_origins": MOD + ":get_parameter_origins"},
+                 data=dict(case=case, c0=c0, c1=c1, p0=p0, p1=p1, paths=paths))
+
+
+def gpo_post(ctx, st, result):
+    d = st.data
+    P = lambda x: d["paths"][id(x)]  # noqa: E731
+    meth = lambda p, c: z3.Concat(P(p), z3.StringVal("."), c.attrs["__name__"])  # noqa: E731
+    case = d["case"]
+    if case == "function":
+        ctx.oblige("post", "a-function's-origin-is-its-import-path", result == P(d["c0"]) if is_z3(result) else False)
+    elif case == "method":
+        ctx.oblige("post", "a-method's-origin-is-<import path of its class>.<name of the method>", result == meth(d["p0"], d["c0"]) if is_z3(result) else False)
+    else:
+        ok = isinstance(result, tuple) and result[0] == "set-str" and len(result[1]) == 2 and all(is_z3(x) for x in result[1])
+        want = [meth(d["p0"], d["c0"]), meth(d["p1"], d["c1"])] if case == "pair-of-methods" else [P(d["c0"]), P(d["c1"])]
+        ctx.oblige("post", f"several-components(a tuple,or the classes of a list type hint)-give-the-set-of-their-origins,each-with-its-own-parent[{case}]", z3.And(*[g == w for g, w in zip(result[1], want)]) if ok else False)
+        ctx.oblige("post", f"a-pair-that-was-given-as-such-is-not-expanded-again[{case}]", (len(ctx.events) == 1 and ctx.events[0][2] == {"also_lists": True}) if case.startswith("List") else not ctx.events)
+
+
+def gpo_raises(ctx, st, exc):
+    ctx.oblige("raises", f"only-components-and-parents-of-different-length-are-refused(AssertionError)[{st.data['case']}](got {exc.cls}@{exc.origin})", exc.cls == "AssertionError" and st.data["case"] == "pair-with-parents-of-other-length")
+
+
+# ------------------------------------------------------------------------------------------------ ast_is_super_call / ast_is_attr_assign
+SUPER_FORMS = ["super().__init__(..)", "super(K, self).m(..)", "sup().__init__(..)", "base.__init__(..)", "super.__init__(..)", "super()(..)", "f(..)", "mod.super().m(..)", "not-a-call:assignment"]
+
+
+def isc_setup(ctx):
+    ast_classes(ctx)
+    form = SUPER_FORMS[ctx.choose(len(SUPER_FORMS), "node")]
+    node = {"super().__init__(..)": lambda: call(attribute(call(name("super")), "__init__")), "super(K, self).m(..)": lambda: call(attribute(call(name("super"), [name("K"), name("self")]), "m")),
+            "sup().__init__(..)": lambda: call(attribute(call(name("sup")), "__init__")), "base.__init__(..)": lambda: call(attribute(name("base"), "__init__")), "super.__init__(..)": lambda: call(attribute(name("super"), "__init__")),
+            "super()(..)": lambda: call(call(name("super"))), "f(..)": lambda: call(name("f")), "mod.super().m(..)": lambda: call(attribute(call(attribute(name("mod"), "super")), "m")),
+            "not-a-call:assignment": lambda: N("Assign", targets=[name("t", STORE())], value=call(attribute(call(name("super")), "__init__")))}[form]()
+    return Setup(env={"node": node}, consts=HELPER_CONSTS, data=dict(form=form))
+
+
+def isc_post(ctx, st, result):
+    f = st.data["form"]
+    ctx.oblige("post", f"a-super-call-is-exactly-a-call-of-an-attribute-of-a-call-of-the-plain-name-super:super(..).m(..)[{f}]", result is (f in ("super().__init__(..)", "super(K, self).m(..)")))
+
+
+ATTR_ASSIGN = ["self.x = v", "self.x: T = v", "x = v", "other.x = v", "self.a.x = v", "y = self.x = v", "self.x, y = v", "not-an-assignment:call", "self.x += v"]
+
+
+def iaa_setup(ctx):
+    ast_classes(ctx)
+    form = ATTR_ASSIGN[ctx.choose(len(ATTR_ASSIGN), "node")]
+    at = z3.String("attribute-name")
+    sx = lambda: attribute(name("self"), at, STORE())  # noqa: E731
+    node = {"self.x = v": lambda: N("Assign", targets=[sx()], value=name("v")), "self.x: T = v": lambda: N("AnnAssign", target=sx(), annotation=name("T"), value=name("v")),
+            "x = v": lambda: N("Assign", targets=[name("x", STORE())], value=name("v")), "other.x = v": lambda: N("Assign", targets=[attribute(name("other"), at, STORE())], value=name("v")),
+            "self.a.x = v": lambda: N("Assign", targets=[attribute(attribute(name("self"), "a"), at, STORE())], value=name("v")), "y = self.x = v": lambda: N("Assign", targets=[name("y", STORE()), sx()], value=name("v")),
+            "self.x, y = v": lambda: N("Assign", targets=[Rec("Tuple", attrs={"elts": [sx(), name("y", STORE())]})], value=name("v")), "not-an-assignment:call": lambda: call(name("f"), [sx()]),
+            "self.x += v": lambda: N("AugAssign", target=sx(), value=name("v"))}[form]()
+    ctx.classes.add("Tuple", ["AST"])
+    return Setup(env={"node": node, "container": "self"}, consts=HELPER_CONSTS, inline=inl("ast_get_assign_targets"), data=dict(form=form, at=at))
+
+
+def iaa_post(ctx, st, result):
+    d = st.data
+    if d["form"] in ("self.x = v", "self.x: T = v", "y = self.x = v"):
+        ctx.oblige("post", f"an-assignment(plain,annotated,chained)-with-a-target-self.<name>-gives-that-name[{d['form']}]", (result == d["at"]) if is_z3(result) else False)
+    else:
+        ctx.oblige("post", f"anything-else(local target,another object's attribute,nested attribute,unpacking,augmented assignment,no assignment)-is-no-attribute-assignment:False[{d['form']}]", result is False)
+
+
+# ------------------------------------------------------------------------------------------------ is_param_subclass_instance_default
+DEFAULTS = ["instance-of-the-annotated-class", "instance-of-a-subclass", "instance-of-an-unrelated-class", "dataclass-instance-of-the-annotated-class", "None", "lambda", "named-function"]
+ANNOTS = ["Base", "Optional[Base]", "Callable[[int], Base]", "Optional[Callable[[int], Base]]", "Callable[[int], int]", "bare-Callable", "int", "untyped"]
+
+
+def psd_setup(ctx):
+    for c_, b in (("Base", ["object"]), ("Child", ["Base"]), ("Unrelated", ["object"]), ("DataBase", ["Base"]), ("function", ["object"])):
+        ctx.classes.add(c_, b)
+    dk, ak = DEFAULTS[ctx.choose(len(DEFAULTS), "default")], ANNOTS[ctx.choose(len(ANNOTS), "annotation")]
+    default = {"instance-of-the-annotated-class": Rec("Base"), "instance-of-a-subclass": Rec("Child"), "instance-of-an-unrelated-class": Rec("Unrelated"), "dataclass-instance-of-the-annotated-class": Rec("DataBase"), "None": None,
+               "lambda": Rec("function", attrs={"__name__": "<lambda>"}), "named-function": Rec("function", attrs={"__name__": "make"})}[dk]
+    BASE, INT = Rec("hint Base", attrs={"classes": (ClassRef("Base"),)}), Rec("hint int", attrs={"classes": ()})
+    call_base, call_int, bare = Rec("Callable[[int], Base]", attrs={"__args__": (INT, BASE), "callable": True, "classes": (ClassRef("Base"),)}), Rec("Callable[[int], int]", attrs={"__args__": (INT, INT), "callable": True, "classes": ()}), Rec("Callable", attrs={"callable": True, "classes": ()})
+    inner = {"Base": BASE, "Optional[Base]": BASE, "Callable[[int], Base]": call_base, "Optional[Callable[[int], Base]]": call_base, "Callable[[int], int]": call_int, "bare-Callable": bare, "int": INT, "untyped": EMPTY}[ak]
+    annotation = Rec(ak, attrs={"optional-of": inner}) if ak.startswith("Optional") else inner
+    calls = {"is_dataclass_like": lambda c, a, k: a[0].name == "DataBase", "get_optional_arg": lambda c, a, k: a[0].attrs.get("optional-of", a[0]) if isinstance(a[0], Rec) else a[0],
+             "get_subclass_types": lambda c, a, k: (c.event("subclass-types", dict(k)), (a[0].attrs.get("classes") or None) if isinstance(a[0], Rec) else None)[1],
+             "ActionTypeHint.is_callable_typehint": lambda c, a, k: isinstance(a[0], Rec) and bool(a[0].attrs.get("callable")),
+             "ActionTypeHint.is_subclass_typehint": lambda c, a, k: (c.event("is-subclass-hint", dict(k)), a[0] is BASE)[1], "callable": lambda c, a, k: isinstance(a[0], Rec) and a[0].cls == "function"}
+    param = Rec("ParamData", attrs={"name": "p", "default": default, "annotation": annotation})
+    return Setup(env={"param": param}, calls=calls, inline=inl("is_lambda"), data=dict(dk=dk, ak=ak))
+
+
+def psd_post(ctx, st, result):
+    d = st.data
+    dk, ak = d["dk"], d["ak"]
+    instance = dk in ("instance-of-the-annotated-class", "instance-of-a-subclass") and ak in ("Base", "Optional[Base]", "Callable[[int], Base]", "Optional[Callable[[int], Base]]")
+    lam = dk == "lambda" and ak in ("Callable[[int], Base]", "Optional[Callable[[int], Base]]")
+    ctx.oblige("post", f"a-default-is-rewritten-as-a-class-specification-exactly-when-it-is-an-instance-of(a subclass of)-the-class-the-annotation-asks-for(Optional stripped;the return class of a Callable)-and-no-dataclass,or-a-lambda-for-a-Callable-that-returns-a-class[{dk};{ak}]",
+               result is (instance or lam))
+    ctx.oblige("post", "the-classes-asked-for-include-a-Callable's-return-class", all(e[1] == {"callable_return": True} for e in ctx.events if e[0] == "subclass-types"))
+
+
+# ------------------------------------------------------------------------------------------------ ParametersVisitor.__init__
+def init_setup(ctx):
+    comp, parent = Rec("component"), Rec("parent")
+    self = Rec("ParametersVisitor")
+    sup = Rec("super()", methods={"__init__": lambda c, s_, a, k: c.event("super-init", tuple(a), dict(k))})
+    logger, foc = Rec("logger"), Rec("function_or_class")
+    calls = {"super": lambda c, a, k: sup, "get_component_and_parent": lambda c, a, k: (c.event("cap", tuple(a)), (comp, parent, "resolved"))[1]}
+    return Setup(env={"self": self, "function_or_class": foc, "method_or_property": "run", "kwargs": {"logger": logger}}, calls=calls, data=dict(self_=self, comp=comp, parent=parent, logger=logger, foc=foc))
+
+
+def init_post(ctx, st, result):
+    d = st.data
+    a = d["self_"].attrs
+    ctx.oblige("post", "the-visitor-works-on-the-component-and-parent-resolved-from(function_or_class,method_or_property)", a.get("component") is d["comp"] and a.get("parent") is d["parent"] and [e[1] for e in ctx.events if e[0] == "cap"] == [(d["foc"], "run")])
+    ctx.oblige("post", "the-logger-goes-to-the-logger-base-class;no-parse-state-exists-yet(component_node is set by parse_source_tree only)", [(e[1], e[2]) for e in ctx.events if e[0] == "super-init"] == [((), {"logger": d["logger"]})] and "component_node" not in a)
+
+
+# ------------------------------------------------------------------------------------------------ replace_param_default_subclass_specs
+RPD = ["K(x=1, y='a')", "K()", "K(x=var)", "K(**d)", "K(x=1, **None)", "K(1)", "lambda a: K(a, x=1)", "lambda a: K(a, 2)", "lambda a: K()", "factory(x=1)[not a class]", "Other(x=1)[not a subclass of the annotation]"]
+
+
+def dict_rec(c, a, k):
+    store = dict(k)
+    r = Rec("dict", attrs={"store": store})
+    r.methods.update({"__getitem__": lambda c2, s_, a2, k2: store[a2[0]], "__setitem__": lambda c2, s_, a2, k2: store.__setitem__(a2[0], a2[1]), "__delitem__": lambda c2, s_, a2, k2: store.__delitem__(a2[0]),
+                      "clear": lambda c2, s_, a2, k2: store.clear(), "__bool__": lambda c2, s_, a2, k2: bool(store)})
+    return r
+
+
+def plain(v):
+    return {k: plain(x) for k, x in v.attrs["store"].items()} if isinstance(v, Rec) and v.cls == "dict" else v
+
+
+def rpd_setup(ctx):
+    ast_classes(ctx)
+    n_flagged = ctx.choose(3, "params-with-a-class-instance-default")
+    form = RPD[ctx.choose(len(RPD), "default-expression")] if n_flagged else None
+    K, OTHER, K2 = Rec("class K"), Rec("class Other"), Rec("class K2")
+    cls_of = {"K": K, "Other": OTHER, "K2": K2}
+    is_lam = bool(form) and form.startswith("lambda")
+    node = {None: lambda: None, "K(x=1, y='a')": lambda: call(name("K"), [], [kw("x", const(1)), kw("y", const("a"))]), "K()": lambda: call(name("K")), "K(x=var)": lambda: call(name("K"), [], [kw("x", name("var"))]),
+            "K(**d)": lambda: call(name("K"), [], [kw("x", const(1)), kw(None, name("d"))]), "K(x=1, **None)": lambda: call(name("K"), [], [kw("x", const(1)), kw(None, const(None))]), "K(1)": lambda: call(name("K"), [const(1)]), "lambda a: K(a, x=1)": lambda: call(name("K"), [name("a")], [kw("x", const(1))]),
+            "lambda a: K(a, 2)": lambda: call(name("K"), [name("a"), const(2)]), "lambda a: K()": lambda: call(name("K")), "factory(x=1)[not a class]": lambda: call(name("factory"), [], [kw("x", const(1))]),
+            "Other(x=1)[not a subclass of the annotation]": lambda: call(name("Other"), [], [kw("x", const(1))])}[form]()
+    default_node = N("Lambda", body=node) if is_lam else node
+    BASE = Rec("hint Base")
+    annotation = Rec("Callable[[int], Base]", attrs={"__args__": (Rec("int"), BASE)}) if is_lam else BASE
+    inst0, inst1, plain_default = Rec("instance (default of p0)"), Rec("instance (default of p2)"), z3.Int("default of p1")
+    p0 = Rec("ParamData", attrs={"name": "p0", "default": inst0, "annotation": annotation, "flag": n_flagged >= 1, "lambda": is_lam})
+    p1 = Rec("ParamData", attrs={"name": "p1", "default": plain_default, "annotation": Rec("int"), "flag": False, "lambda": False})
+    p2 = Rec("ParamData", attrs={"name": "p2", "default": inst1, "annotation": BASE, "flag": n_flagged >= 2, "lambda": False})
+    node2 = call(name("K2"), [], [kw("z", const(True))])
+    params = [p0, p1, p2]
+    self = visitor()
+    self.methods.update({"parse_source_tree": lambda c, s_, a, k: c.event("parse"),
+                         "get_default_nodes": lambda c, s_, a, k: (c.event("default-nodes", tuple(a[0])), [n_ for p_, n_ in ((p0, default_node), (p2, node2)) if p_.attrs["flag"]])[1],
+                         "get_call_class_type": lambda c, s_, a, k: cls_of.get(a[0].attrs["func"].attrs.get("id")) if isinstance(a[0], Rec) and a[0].cls == "Call" else None})
+    calls = {"is_param_subclass_instance_default": lambda c, a, k: a[0].attrs["flag"], "is_lambda": lambda c, a, k: a[0] is inst0 and is_lam, "get_subclass_types": lambda c, a, k: (c.event("subclass-types", a[0], dict(k)), ("Base-classes",))[1],
+             "is_subclass": lambda c, a, k: a[0] in (K, K2) and a[1] == ("Base-classes",), "get_import_path": lambda c, a, k: "pkg." + a[0].cls.split()[-1], "dict": dict_rec, "ast_str": lambda c, a, k: "text"}
+    return Setup(env={"self": self, "params": params}, calls=calls, consts=HELPER_CONSTS, inline=inl("ast_is_constant", "ast_get_constant_value"),
+                 data=dict(n_flagged=n_flagged, form=form, params=params, p0=p0, p1=p1, p2=p2, inst0=inst0, inst1=inst1, plain_default=plain_default, lst=list(params)))
+
+
+def rpd_post(ctx, st, result):
+    d = st.data
+    form, n = d["form"], d["n_flagged"]
+    tag = f"[{n} such params;{form}]"
+    ctx.oblige("frame", "a-parameter-whose-default-is-no-class-instance-is-never-touched;the-list-keeps-its-parameters" + tag, d["p1"].attrs["default"] is d["plain_default"] and same_list(st.env["params"], d["lst"]) and (n >= 2 or d["p2"].attrs["default"] is d["inst1"]))
+    if n == 0:
+        ctx.oblige("post", "without-class-instance-defaults-the-source-is-not-needed(a component without source keeps resolving)" + tag, not ctx.events and d["p0"].attrs["default"] is d["inst0"])
+        return
+    want = {"K(x=1, y='a')": {"class_path": "pkg.K", "init_args": {"x": 1, "y": "a"}}, "K()": {"class_path": "pkg.K"}, "lambda a: K(a, x=1)": {"class_path": "pkg.K", "init_args": {"x": 1}}, "lambda a: K()": {"class_path": "pkg.K"}}.get(form)
+    got = plain(d["p0"].attrs["default"])
+    if want is not None:
+        ctx.oblige("post", "a-default-written-as-a-call-of-a-subclass-with-constant-keyword-arguments(for a lambda: after the lambda's own positionals)-becomes{class_path, init_args}-with-exactly-those-arguments(init_args omitted when there are none)" + tag,
+                   got == want, note=f"got {got!r}")
+    else:
+        ctx.oblige("post", "any-other-default-expression(non-constant or ** argument,positional argument,more positionals than the lambda passes on,no class,a class outside the annotation)-keeps-the-default-object-as-it-is" + tag, d["p0"].attrs["default"] is d["inst0"])
+        if not form.startswith(("factory", "Other")):
+            ctx.oblige("post", "an-unsupported-class-instance-default-is-logged" + tag, len([e for e in ctx.events if e[0] == "log"]) == 1)
+    if n >= 2:
+        ctx.oblige("post", "each-parameter-is-rewritten-from-its-own-default-expression(the nodes are matched to the parameters in order)" + tag, plain(d["p2"].attrs["default"]) == {"class_path": "pkg.K2", "init_args": {"z": True}})
+    dn = [e for e in ctx.events if e[0] == "default-nodes"]
+    ctx.oblige("post", "the-source-is-parsed-first;the-default-expressions-asked-for-are-those-of-exactly-the-parameters-concerned" + tag,
+               ctx.events[0][0] == "parse" and len(dn) == 1 and sorted(dn[0][1]) == (["p0", "p2"] if n >= 2 else ["p0"]))
+
+
+def rpd_raises(ctx, st, exc):
+    ctx.oblige("raises", f"never-raises-for-parameters-whose-default-nodes-are-found(got {exc.cls}@{exc.origin})[{st.data['form']}]", False)
+
+
+def units_small(prop):
+    T = "inspect.isfunction / getattr_static / getmro, callable: as documented; isinstance by the class of the object"
+    return [
+        Unit(prop, MOD + ":is_staticmethod", pred_setup, pred_post("a-staticmethod-object,nothing-else", ("staticmethod",)), never, trusted=[T]),
+        Unit(prop, MOD + ":is_method", pred_setup, pred_post("a-plain-function(or cython method)-found-in-a-class:not-a-staticmethod/classmethod-object,property-or-attribute", ("method", "cython-method")), never, trusted=[T]),
+        Unit(prop, MOD + ":is_property", pred_setup, pred_post("a-property-object,nothing-else", ("property",)), never, trusted=[T]),
+        Unit(prop, MOD + ":is_method_or_property", pred_setup, pred_post("what-has-a-self-and-a-body-to-search:methods-and-properties", ("method", "cython-method", "property")), never, trusted=[T]),
+        Unit(prop, MOD + ":is_classmethod", icm_setup, icm_post, never, trusted=[T, "contextlib.suppress(AttributeError) swallows exactly AttributeError"]),
+        Unit(prop, MOD + ":is_lambda", il_setup, il_post, never, trusted=[T]),
+        Unit(prop, MOD + ":has_dunder_new_method", hdn_setup, hdn_post, never, trusted=[T, "cls.__new__ is the very function object of the class that defines it"]),
+        Unit(prop, MOD + ":get_parameter_origins", gpo_setup, gpo_post, gpo_raises, expect_cover=("return", "raise:AssertionError"), trusted=["get_import_path (import_paths.py), get_subclass_types, iter_to_set_str (r2_typehelpers): their own units"]),
+        Unit(prop, MOD + ":ast_is_super_call", isc_setup, isc_post, never, trusted=[AST_TRUST]),
+        Unit(prop, MOD + ":ast_is_attr_assign", iaa_setup, iaa_post, never, trusted=[AST_TRUST]),
+        Unit(prop, MOD + ":is_param_subclass_instance_default", psd_setup, psd_post, never, trusted=["get_optional_arg, get_subclass_types, is_dataclass_like, ActionTypeHint.is_callable_typehint / is_subclass_typehint: their own units (r2_typehelpers / c02)"]),
+        Unit(prop, PV + "__init__", init_setup, init_post, never, trusted=["LoggerProperty.__init__(logger=..)"]),
+        Unit(prop, PV + "replace_param_default_subclass_specs", rpd_setup, rpd_post, rpd_raises, trusted=[AST_TRUST, "is_param_subclass_instance_default, get_default_nodes, get_call_class_type, parse_source_tree: their own units (this module); get_subclass_types, is_subclass, get_import_path by contract",
+                                                                                                          "precondition: get_default_nodes returns one node per name asked for (its own unit: refuted for keyword-only parameters - see there)"]),
+    ]
+
+
 def units(prop):
-    return units_visitor(prop)
+    return units_visitor(prop) + units_callee(prop) + units_signature(prop) + units_small(prop)
 
 
-CARRIES = {}
+CARRIES = {"C13": ["ParametersVisitor.visit_Assign", "ParametersVisitor.visit_AnnAssign", "ParametersVisitor.visit_Call", "ParametersVisitor.visit_If", "ParametersVisitor.visit_Import", "ParametersVisitor.visit_ImportFrom",
+                   "ParametersVisitor.add_value", "ParametersVisitor.find_values_usage", "ParametersVisitor.get_node_component", "ParametersVisitor.get_component_from_source", "ParametersVisitor.match_call_that_uses_attr",
+                   "ParametersVisitor.get_parameters_attr_use_in_members", "ParametersVisitor.parse_source_tree", "ParametersVisitor.get_node_origin", "ParametersVisitor.remove_ignore_parameters",
+                   "ParametersVisitor.get_component_globals", "ParametersVisitor.get_call_class_type", "ParametersVisitor.get_default_nodes", ":get_parameters_from_ast", ":get_component_and_parent",
+                   ":get_signature_parameters_and_indexes", ":get_parameters_by_assumptions", ":get_parameters_from_stubs", ":add_stub_types", ":unpack_typed_dict_kwargs", ":replace_generic_type_vars",
+                   ":is_staticmethod", ":is_method", ":is_property", ":is_method_or_property", ":is_classmethod", ":is_lambda", ":has_dunder_new_method", ":get_parameter_origins", ":ast_is_super_call", ":ast_is_attr_assign",
+                   ":is_param_subclass_instance_default", "ParametersVisitor.__init__", "ParametersVisitor.replace_param_default_subclass_specs"]}
